@@ -3,7 +3,7 @@
    combinator lemmas of RoundTrip.v over the generated G terms. *)
 From TI Require Import Bytes Grammar Nom Interp InterpFacts Thm_Number Thm_Fuel Natives Proofs_C01 RoundTrip Spec.
 From TI.gen Require Import ImapGrammar.
-From Coq Require Import Lia.
+From Coq Require Import Lia Arith PeanoNat.
 Local Open Scope N_scope.
 
 Notation OK := (Ok native_call env rk).
@@ -1226,11 +1226,6 @@ Proof.
     split; [reflexivity|]. split; [reflexivity|]. split; [exact Hk|]. split; [exact Hke|]. split; [exact Hws|]. split; [exact Hvi | exact Hl].
 Qed.
 
-Theorem data_roundtrip v w : enc_data_response v w -> forall rest, parse (w ++ rest) = ROk rest v (nlen w).
-Proof.
-  intros [v0 body sp Hb Hsp] rest. apply untagged_lift; [|exact Hsp]. intro d.
-  destruct Hb as [v1 b1 H | v1 b1 H]; [apply ok_untagged, H | apply ok_quota, H].
-Qed.
 
 (* ---------------------------------------------------------------- status responses (RFC 3501 7.1) *)
 Lemma env_resp_cond : env f_rfc3501_x_resp_cond = Some def_rfc3501_x_resp_cond. Proof. reflexivity. Qed.
@@ -1485,3 +1480,1144 @@ Proof.
   apply HOK; [| rewrite ?app_length; cbn [length]; lia | exact I].
   pose proof fuel_enough as Hf. apply N.leb_le in Hf. exact Hf.
 Qed.
+
+(* ---------------------------------------------------------------- continuation request *)
+Theorem continue_roundtrip v w : enc_continue_response v w -> forall rest, parse (w ++ rest) = ROk rest v (nlen w).
+Proof.
+  intros [code info wt Hrt] rest. unfold parse.
+  assert (HOK : OK def_parser_x_parse_response 0%nat ([43; 32] ++ wt ++ [13; 10]) (VRec "Response::Continue" [("code"%string, code); ("information"%string, info)]) any).
+  { unfold def_parser_x_parse_response. apply ok_alt_here.
+    apply (okref _ _ _ _ _ _ _ env_continue_req). unfold def_rfc3501_x_continue_req.
+    eapply ok_map.
+    { apply ok_seq. regroup ([43] ++ ([32] ++ (wt ++ ([13; 10] ++ [])))).
+      eapply (okseq_cons _ _ _ _ _ _ _ _ _ _ any any); [apply ok_tag | | intros; exact I].
+      eapply (okseq_cons _ _ _ _ _ _ _ _ _ _ any any); [apply ok_opt_some, ok_tag | | intros; exact I].
+      eapply (okseq_cons _ _ _ _ _ _ _ _ _ _ at_cr any); [apply ok_resp_text, Hrt | | intros; reflexivity].
+      eapply (okseq_cons _ _ _ _ _ _ _ _ _ _ any any); [apply ok_tag | apply (okseq_nil _ _ _ _ any) | intros; exact I]. }
+    reflexivity. }
+  apply HOK; [| rewrite ?app_length; cbn [length]; lia | exact I].
+  pose proof fuel_enough as Hf. apply N.leb_le in Hf. exact Hf.
+Qed.
+
+(* ---------------------------------------------------------------- SEARCH / SORT *)
+Lemma env_md_search : env f_rfc3501_x_mailbox_data_search = Some def_rfc3501_x_mailbox_data_search. Proof. reflexivity. Qed.
+Lemma env_md_sort : env f_rfc5256_x_mailbox_data_sort = Some def_rfc5256_x_mailbox_data_sort. Proof. reflexivity. Qed.
+
+Definition id_item : G := Map proj12 (Seq [Leaf (LTag (bs " ")); Ref f_core_x_number DSame]).
+Definition ids_end (rest : list byte) : Prop :=
+  match rest with
+  | 13 :: _ => True
+  | 32 :: c :: _ => nom_is_digit c = false
+  | _ => False
+  end.
+
+Lemma rej_number_nondigit c i d : nom_is_digit c = false -> REJ (Ref f_core_x_number DSame) d (c :: i).
+Proof.
+  intro H. apply (rejref _ _ _ _ _ env_number). intros b f Hf Hb. destruct f as [|f]; [cbn [need] in Hf; lia|].
+  rewrite run_S. cbn [step leaf_run]. unfold number_p. cbn [span]. rewrite H. reflexivity.
+Qed.
+
+Lemma rej_id_item rest d : ids_end rest -> REJ id_item d rest.
+Proof.
+  intro H. unfold id_item. apply rej_map.
+  destruct rest as [|c0 r]; [destruct H|]. 
+  destruct (N.eq_dec c0 13) as [-> | Hn13].
+  - apply rej_seq_head, rej_tag. reflexivity.
+  - destruct (N.eq_dec c0 32) as [-> | Hn32].
+    + destruct r as [|c r']; [destruct H|]. cbn in H.
+      change (32 :: c :: r') with ([32] ++ (c :: r')).
+      eapply (rej_seq_after _ _ _ _ _ _ _ _ any); [apply ok_tag | exact I |].
+      apply rejseq_head. apply rej_number_nondigit, H.
+    + exfalso. cbn in H. destruct c0 as [|p]; [exact H|].
+      repeat (destruct p as [p|p|]; try exact H; try (apply Hn13; reflexivity); try (apply Hn32; reflexivity)).
+Qed.
+
+Lemma okmany_ids l ws d : enc_ids l ws -> OkMany native_call env rk id_item d ws l ids_end.
+Proof.
+  intro H. induction H as [| n w l ws Hn Hl IH].
+  - apply okmany_nil. intros rest Hr. apply rej_id_item, Hr.
+  - unfold SPb. rewrite app_assoc. eapply (okmany_cons _ _ _ _ _ _ _ _ _ nodigit).
+    + unfold id_item. apply (Ok_follow _ _ _ _ _ _ _ nodigit); [|intros r Hr; exact Hr].
+      eapply ok_map.
+      { apply ok_seq. regroup ([32] ++ (w ++ [])).
+        eapply (okseq_cons _ _ _ _ _ _ _ _ _ _ any nodigit); [apply ok_tag | | intros; exact I].
+        eapply (okseq_cons _ _ _ _ _ _ _ _ _ _ nodigit nodigit); [apply ok_number, Hn | apply (okseq_nil _ _ _ _ nodigit) | intros r Hr; exact Hr]. }
+      reflexivity.
+    + discriminate.
+    + exact IH.
+    + intros rest Hr. destruct Hl; cbn [app].
+      * destruct rest as [|c0 r]; [destruct Hr|]. cbn. destruct (N.eq_dec c0 13) as [-> | Hx]; [reflexivity|].
+        destruct (N.eq_dec c0 32) as [-> | Hx2]; [reflexivity|].
+        exfalso. cbn in Hr. destruct c0 as [|p]; [exact Hr|].
+        repeat (destruct p as [p|p|]; try exact Hr; try (apply Hx; reflexivity); try (apply Hx2; reflexivity)).
+      * reflexivity.
+Qed.
+
+(* the shared shape of mailbox_data_search and mailbox_data_sort *)
+Definition id_list_g (K : string) (con : string) : G :=
+  Map (mk_action (PVar "x") (ACon con [AVar "x"]))
+      (Map (mk_action (PTuple [PVar "p0"; PWild]) (AVar "p0"))
+           (Seq [Map proj12 (Seq [Leaf (LTagNC (bs K)); Many0 id_item]); Opt (Leaf (LTag (bs " ")))])).
+
+(* core ++ optional first trailing space; what follows is CR (no space taken) or anything (one space taken) *)
+Lemma ok_id_list K con k l w d : same_nocase (bs K) k = true -> enc_ids l w ->
+  OK (id_list_g K con) d (k ++ w) (VCon con [VList l]) (fun rest => match rest with c :: _ => c = 13 | [] => False end) /\
+  OK (id_list_g K con) d (k ++ w ++ [32]) (VCon con [VList l]) (fun rest => match rest with c :: _ => c = 13 \/ c = 32 | [] => False end).
+Proof.
+  intros Hk Hl. unfold id_list_g. split.
+  - eapply ok_map; [|reflexivity]. eapply ok_map.
+    { apply ok_seq. regroup ((k ++ (w ++ [])) ++ ([] ++ [])).
+      eapply (okseq_cons _ _ _ _ _ _ _ _ _ _ ids_end (fun rest => match rest with c :: _ => c = 13 | [] => False end)).
+      - eapply ok_map.
+        { apply ok_seq.
+          eapply (okseq_cons _ _ _ _ _ _ _ _ _ _ any ids_end); [apply ok_tag_nc, Hk | | intros; exact I].
+          eapply (okseq_cons _ _ _ _ _ _ _ _ _ _ ids_end ids_end); [apply ok_many0, okmany_ids, Hl | apply (okseq_nil _ _ _ _ ids_end) | intros r Hr; exact Hr]. }
+        reflexivity.
+      - eapply (okseq_cons _ _ _ _ _ _ _ _ _ _ (fun rest => match rest with c :: _ => c = 13 | [] => False end) (fun rest => match rest with c :: _ => c = 13 | [] => False end)).
+        + apply ok_opt_none. intros rest Hr. destruct rest as [|c r]; [destruct Hr|]. subst c. apply rej_tag. reflexivity.
+        + apply (okseq_nil _ _ _ _ (fun rest => match rest with c :: _ => c = 13 | [] => False end)).
+        + intros r Hr. exact Hr.
+      - intros rest Hr. destruct rest as [|c r]; [destruct Hr|]. subst c. exact I. }
+    reflexivity.
+  - eapply ok_map; [|reflexivity]. eapply ok_map.
+    { apply ok_seq. regroup ((k ++ (w ++ [])) ++ ([32] ++ [])).
+      eapply (okseq_cons _ _ _ _ _ _ _ _ _ _ ids_end (fun rest => match rest with c :: _ => c = 13 \/ c = 32 | [] => False end)).
+      - eapply ok_map.
+        { apply ok_seq.
+          eapply (okseq_cons _ _ _ _ _ _ _ _ _ _ any ids_end); [apply ok_tag_nc, Hk | | intros; exact I].
+          eapply (okseq_cons _ _ _ _ _ _ _ _ _ _ ids_end ids_end); [apply ok_many0, okmany_ids, Hl | apply (okseq_nil _ _ _ _ ids_end) | intros r Hr; exact Hr]. }
+        reflexivity.
+      - eapply (okseq_cons _ _ _ _ _ _ _ _ _ _ any (fun rest => match rest with c :: _ => c = 13 \/ c = 32 | [] => False end)).
+        + apply ok_opt_some, ok_tag.
+        + apply (okseq_nil _ _ _ _ (fun rest => match rest with c :: _ => c = 13 \/ c = 32 | [] => False end)).
+        + intros; exact I.
+      - intros rest Hr. destruct rest as [|c r]; [destruct Hr|]. cbn [app]. destruct Hr as [-> | ->]; reflexivity. }
+    reflexivity.
+Qed.
+
+Lemma search_shape : def_rfc3501_x_mailbox_data_search = id_list_g "SEARCH" "MailboxDatum::Search". Proof. reflexivity. Qed.
+Lemma sort_shape : def_rfc5256_x_mailbox_data_sort = id_list_g "SORT" "MailboxDatum::Sort". Proof. reflexivity. Qed.
+
+Lemma ok_mailbox_data_search k body v (F : list byte -> Prop) d : same_nocase (bs "SEARCH") k = true ->
+  (exists tl, body = k ++ tl) ->
+  OK (id_list_g "SEARCH" "MailboxDatum::Search") (apply_darg DSame (apply_darg DSame d)) body v F ->
+  OK (Alt rd_alts) d body (VCon "Response::MailboxData" [v]) F.
+Proof.
+  intros Hk (tl & ->) H. unfold rd_alts. cbn [def_rfc3501_x_response_data].
+  apply (skip_kw _ _ (bs "SEARCH") _ _ _ _ _ Hk); [vm_compute; reflexivity|].
+  apply ok_alt_here. eapply ok_map; [|reflexivity].
+  apply (okref _ _ _ _ _ _ _ env_mailbox_data). unfold def_rfc3501_x_mailbox_data.
+  do 6 (apply (skip_kw _ _ (bs "SEARCH") _ _ _ _ _ Hk); [vm_compute; reflexivity|]).
+  apply ok_alt_here. apply (okref _ _ _ _ _ _ _ env_md_search). rewrite search_shape. exact H.
+Qed.
+
+Lemma ok_mailbox_data_sort k body v (F : list byte -> Prop) d : same_nocase (bs "SORT") k = true ->
+  (exists tl, body = k ++ tl) ->
+  OK (id_list_g "SORT" "MailboxDatum::Sort") (apply_darg DSame (apply_darg DSame d)) body v F ->
+  OK (Alt rd_alts) d body (VCon "Response::MailboxData" [v]) F.
+Proof.
+  intros Hk (tl & ->) H. unfold rd_alts. cbn [def_rfc3501_x_response_data].
+  apply (skip_kw _ _ (bs "SORT") _ _ _ _ _ Hk); [vm_compute; reflexivity|].
+  apply ok_alt_here. eapply ok_map; [|reflexivity].
+  apply (okref _ _ _ _ _ _ _ env_mailbox_data). unfold def_rfc3501_x_mailbox_data.
+  do 9 (apply (skip_kw _ _ (bs "SORT") _ _ _ _ _ Hk); [vm_compute; reflexivity|]).
+  apply ok_alt_here. apply (okref _ _ _ _ _ _ _ env_md_sort). rewrite sort_shape. exact H.
+Qed.
+
+Lemma spaces_follow sp r : enc_spaces sp -> match sp ++ [13; 10] ++ r with c :: _ => c = 13 \/ c = 32 | [] => False end.
+Proof. intros [|w H]; cbn [app]; [left | right]; reflexivity. Qed.
+
+Theorem id_list_roundtrip v w : enc_id_list_response v w -> forall rest, parse (w ++ rest) = ROk rest v (nlen w).
+Proof.
+  intros H rest.
+  destruct H as [k l w0 sp Hk Hl Hsp | k l w0 sp Hk Hl Hsp]; unfold kw in Hk.
+  - destruct Hsp as [|sp' Hsp'].
+    + destruct (ok_id_list "SEARCH" "MailboxDatum::Search" k l w0 0%nat Hk Hl) as [HA _].
+      pose proof (untagged_lift_gen (k ++ w0) _ _ [] (fun d => ok_mailbox_data_search k (k ++ w0) _ _ d Hk (ex_intro _ w0 eq_refl)
+                    (proj1 (ok_id_list "SEARCH" "MailboxDatum::Search" k l w0 _ Hk Hl))) spaces_nil (fun r => eq_refl) rest) as HP.
+      cbn [app] in HP. repeat rewrite <- app_assoc in HP. repeat rewrite <- app_assoc. cbn [app]. exact HP.
+    + pose proof (untagged_lift_gen (k ++ w0 ++ [32]) _ _ sp' (fun d => ok_mailbox_data_search k (k ++ w0 ++ [32]) _ _ d Hk (ex_intro _ (w0 ++ [32]) eq_refl)
+                    (proj2 (ok_id_list "SEARCH" "MailboxDatum::Search" k l w0 _ Hk Hl))) Hsp'
+                    (fun r => spaces_follow sp' r Hsp') rest) as HP.
+      repeat rewrite <- app_assoc in HP. repeat rewrite <- app_assoc. cbn [app] in *. exact HP.
+  - destruct Hsp as [|sp' Hsp'].
+    + pose proof (untagged_lift_gen (k ++ w0) _ _ [] (fun d => ok_mailbox_data_sort k (k ++ w0) _ _ d Hk (ex_intro _ w0 eq_refl)
+                    (proj1 (ok_id_list "SORT" "MailboxDatum::Sort" k l w0 _ Hk Hl))) spaces_nil (fun r => eq_refl) rest) as HP.
+      cbn [app] in HP. repeat rewrite <- app_assoc in HP. repeat rewrite <- app_assoc. cbn [app]. exact HP.
+    + pose proof (untagged_lift_gen (k ++ w0 ++ [32]) _ _ sp' (fun d => ok_mailbox_data_sort k (k ++ w0 ++ [32]) _ _ d Hk (ex_intro _ (w0 ++ [32]) eq_refl)
+                    (proj2 (ok_id_list "SORT" "MailboxDatum::Sort" k l w0 _ Hk Hl))) Hsp'
+                    (fun r => spaces_follow sp' r Hsp') rest) as HP.
+      repeat rewrite <- app_assoc in HP. repeat rewrite <- app_assoc. cbn [app] in *. exact HP.
+Qed.
+
+(* ---------------------------------------------------------------- STATUS *)
+Lemma env_md_status : env f_rfc3501_x_mailbox_data_status = Some def_rfc3501_x_mailbox_data_status. Proof. reflexivity. Qed.
+Lemma env_mailbox : env f_rfc3501_x_mailbox = Some def_rfc3501_x_mailbox. Proof. reflexivity. Qed.
+Lemma env_status_att : env f_rfc3501_x_status_att = Some def_rfc3501_x_status_att. Proof. reflexivity. Qed.
+Lemma env_status_att_list : env f_rfc3501_x_status_att_list = Some def_rfc3501_x_status_att_list. Proof. reflexivity. Qed.
+Lemma env_sa_hms : env f_rfc4551_x_status_att_val_highest_mod_seq = Some def_rfc4551_x_status_att_val_highest_mod_seq. Proof. reflexivity. Qed.
+
+Lemma ok_mailbox m w d : enc_mailbox m w -> OK (Ref f_rfc3501_x_mailbox DSame) d w (VBytes m) (stops_at cls_core_x_is_astring_char).
+Proof.
+  intros [s w0 Hs Hu]. apply (okref _ _ _ _ _ _ _ env_mailbox). unfold def_rfc3501_x_mailbox.
+  eapply ok_map. { apply ok_astring_utf8; eassumption. } reflexivity.
+Qed.
+
+Lemma ok_status_att v w d : enc_status_att v w -> OK (Ref f_rfc3501_x_status_att DSame) d w v nodigit.
+Proof.
+  intro H. apply (okref _ _ _ _ _ _ _ env_status_att). unfold def_rfc3501_x_status_att.
+  destruct H as [k n w Hk Hn | k n w Hk Hn | k n w Hk Hn | k n w Hk Hn | k n w Hk Hn | k n w Hk Hn]; unfold kw in Hk.
+  - do 1 skip "MESSAGES "%string Hk. apply ok_alt_here. eapply ok_map. { apply (ok_kw2 _ _ _ _ _ _ nodigit Hk). apply ok_number, Hn. } reflexivity.
+  - do 2 skip "RECENT "%string Hk. apply ok_alt_here. eapply ok_map. { apply (ok_kw2 _ _ _ _ _ _ nodigit Hk). apply ok_number, Hn. } reflexivity.
+  - do 3 skip "UIDNEXT "%string Hk. apply ok_alt_here. eapply ok_map. { apply (ok_kw2 _ _ _ _ _ _ nodigit Hk). apply ok_number, Hn. } reflexivity.
+  - do 4 skip "UIDVALIDITY "%string Hk. apply ok_alt_here. eapply ok_map. { apply (ok_kw2 _ _ _ _ _ _ nodigit Hk). apply ok_number, Hn. } reflexivity.
+  - do 5 skip "UNSEEN "%string Hk. apply ok_alt_here. eapply ok_map. { apply (ok_kw2 _ _ _ _ _ _ nodigit Hk). apply ok_number, Hn. } reflexivity.
+  - apply ok_alt_here. apply (okref _ _ _ _ _ _ _ env_sa_hms). unfold def_rfc4551_x_status_att_val_highest_mod_seq.
+    eapply ok_map.
+    { apply ok_seq. regroup (k ++ (w ++ [])).
+      eapply (okseq_cons _ _ _ _ _ _ _ _ _ _ any nodigit); [apply ok_tag_nc, Hk | | intros; exact I].
+      eapply (okseq_cons _ _ _ _ _ _ _ _ _ _ nodigit nodigit); [apply ok_number_64, Hn | apply (okseq_nil _ _ _ _ nodigit) | intros r Hr; exact Hr]. }
+    reflexivity.
+Qed.
+
+Lemma oksep_status_atts l ws d : enc_status_atts_more l ws ->
+  OkSep native_call env rk (Leaf (LTag (bs " "))) (Ref f_rfc3501_x_status_att DSame) d ws l closes.
+Proof.
+  intro H. induction H as [| a l w ws Ha Hl IH].
+  - apply oksep_nil. intros rest Hr. destruct rest as [|c r]; [destruct Hr|]. cbn in Hr. subst c. apply rej_tag. reflexivity.
+  - unfold SPb. eapply (oksep_cons _ _ _ _ _ _ _ _ _ _ _ _ any nodigit closes).
+    + apply ok_tag.
+    + discriminate.
+    + apply ok_status_att, Ha.
+    + exact IH.
+    + intros rest Hr. destruct Hl; cbn [app].
+      * destruct rest as [|c r]; [destruct Hr|]. cbn in Hr. subst c. reflexivity.
+      * reflexivity.
+    + intros; exact I.
+Qed.
+
+Lemma ok_status_att_list v w d : enc_status_att_list v w -> OK (Ref f_rfc3501_x_status_att_list DSame) d w v any.
+Proof.
+  intros [| a w0 l ws Ha Hl]; apply (okref _ _ _ _ _ _ _ env_status_att_list); unfold def_rfc3501_x_status_att_list.
+  - eapply ok_map.
+    { apply ok_seq. regroup ([40] ++ ([] ++ ([41] ++ []))).
+      eapply (okseq_cons _ _ _ _ _ _ _ _ _ _ any any); [apply ok_tag | | intros; exact I].
+      eapply (okseq_cons _ _ _ _ _ _ _ _ _ _ closes any).
+      - apply ok_seplist0_empty. intros rest Hr. destruct rest as [|c r]; [destruct Hr|]. cbn in Hr. subst c.
+        apply (fails_on_byte native_call env rk rank_ok_all 8). vm_compute. reflexivity.
+      - eapply (okseq_cons _ _ _ _ _ _ _ _ _ _ any any); [apply ok_tag | apply (okseq_nil _ _ _ _ any) | intros; exact I].
+      - intros rest _. reflexivity. }
+    reflexivity.
+  - eapply ok_map.
+    { apply ok_seq. regroup ([40] ++ ((w0 ++ ws) ++ ([41] ++ []))).
+      eapply (okseq_cons _ _ _ _ _ _ _ _ _ _ any any); [apply ok_tag | | intros; exact I].
+      eapply (okseq_cons _ _ _ _ _ _ _ _ _ _ closes any).
+      - eapply (ok_seplist0 _ _ _ _ _ _ _ _ _ _ nodigit closes).
+        + apply ok_status_att, Ha.
+        + apply oksep_status_atts, Hl.
+        + intros rest Hr. destruct Hl; cbn [app].
+          * destruct rest as [|c r]; [destruct Hr|]. cbn in Hr. subst c. reflexivity.
+          * reflexivity.
+      - eapply (okseq_cons _ _ _ _ _ _ _ _ _ _ any any); [apply ok_tag | apply (okseq_nil _ _ _ _ any) | intros; exact I].
+      - intros rest _. reflexivity. }
+    reflexivity.
+Qed.
+
+Lemma ok_mailbox_status v body d : enc_mailbox_status v body -> OK (Alt rd_alts) d body v before_trailer.
+Proof.
+  intros [k m wm atts wa Hk Hm Ha]. unfold kw in Hk. apply (Ok_follow _ _ _ _ _ _ _ any); [|intros; exact I].
+  unfold rd_alts. cbn [def_rfc3501_x_response_data].
+  apply (skip_kw _ _ (bs "STATUS ") _ _ _ _ _ Hk); [vm_compute; reflexivity|].
+  apply ok_alt_here. eapply ok_map; [|reflexivity].
+  apply (okref _ _ _ _ _ _ _ env_mailbox_data). unfold def_rfc3501_x_mailbox_data.
+  do 4 (apply (skip_kw _ _ (bs "STATUS ") _ _ _ _ _ Hk); [vm_compute; reflexivity|]).
+  apply ok_alt_here. apply (okref _ _ _ _ _ _ _ env_md_status). unfold def_rfc3501_x_mailbox_data_status.
+  eapply ok_map.
+  { apply ok_seq. unfold SPb. regroup (k ++ (wm ++ ([32] ++ (wa ++ [])))).
+    eapply (okseq_cons _ _ _ _ _ _ _ _ _ _ any any); [apply ok_tag_nc, Hk | | intros; exact I].
+    eapply (okseq_cons _ _ _ _ _ _ _ _ _ _ (stops_at cls_core_x_is_astring_char) any); [apply ok_mailbox, Hm | | intros rest _; reflexivity].
+    eapply (okseq_cons _ _ _ _ _ _ _ _ _ _ any any); [apply ok_tag | | intros; exact I].
+    eapply (okseq_cons _ _ _ _ _ _ _ _ _ _ any any); [apply ok_status_att_list, Ha | apply (okseq_nil _ _ _ _ any) | intros; exact I]. }
+  reflexivity.
+Qed.
+
+Definition kw_char (b : byte) : bool := ((65 <=? b) && (b <=? 90)) || ((97 <=? b) && (b <=? 122)) || ((48 <=? b) && (b <=? 57)) || (b =? 61).
+
+Lemma kw_chars_ok K w : forallb kw_char K = true -> same_nocase K w = true ->
+  forallb cls_core_x_is_atom_char w = true /\ forallb (fun b => b <=? 127) w = true.
+Proof.
+  revert w; induction K as [|a K IH]; intros [|b w] HK H; try discriminate; [split; reflexivity|].
+  cbn [forallb] in HK. apply andb_true_iff in HK. destruct HK as [Ha HK].
+  cbn [same_nocase] in H. apply andb_true_iff in H. destruct H as [Hab H].
+  destruct (IH w HK H) as [I1 I2]. cbn [forallb]. rewrite I1, I2.
+  assert (Hlt : a < 256).
+  { unfold kw_char in Ha. repeat (apply orb_true_iff in Ha; destruct Ha as [Ha | Ha]);
+      try (apply andb_true_iff in Ha; destruct Ha as [_ Ha]; apply N.leb_le in Ha; lia). apply N.eqb_eq in Ha. lia. }
+  pose proof (sweep (fun a => implb (kw_char a) (forallb (fun b => cls_core_x_is_atom_char b && (b <=? 127)) (variants a))) ltac:(vm_compute; reflexivity) a Hlt) as Hx.
+  cbv beta in Hx. rewrite Ha in Hx. cbn [implb] in Hx. rewrite forallb_forall in Hx.
+  specialize (Hx b (lower_variants a b Hab)). apply andb_true_iff in Hx. destruct Hx as [X1 X2]. rewrite X1, X2. split; reflexivity.
+Qed.
+
+(* ---------------------------------------------------------------- LIST / LSUB *)
+Lemma env_md_list : env f_rfc3501_x_mailbox_data_list = Some def_rfc3501_x_mailbox_data_list. Proof. reflexivity. Qed.
+Lemma env_md_lsub : env f_rfc3501_x_mailbox_data_lsub = Some def_rfc3501_x_mailbox_data_lsub. Proof. reflexivity. Qed.
+Lemma env_mailbox_list : env f_rfc3501_x_mailbox_list = Some def_rfc3501_x_mailbox_list. Proof. reflexivity. Qed.
+Lemma env_name_attribute : env f_rfc3501_x_name_attribute = Some def_rfc3501_x_name_attribute. Proof. reflexivity. Qed.
+Lemma env_quoted_utf8 : env f_core_x_quoted_utf8 = Some def_core_x_quoted_utf8. Proof. reflexivity. Qed.
+
+Lemma eq_nocase_same_nocase s w : eq_nocase w s = same_nocase s w.
+Proof.
+  revert w; induction s as [|a s IH]; intros [|b w]; try reflexivity.
+  unfold eq_nocase in *. cbn [list_eqb same_nocase]. unfold eq_nocase1. rewrite (N.eqb_sym (lower b)), IH. reflexivity.
+Qed.
+
+(* case-insensitive equality is a congruence: a name spelled in another case is classified the same way *)
+Lemma eq_nocase_congr s w t : same_nocase s w = true -> eq_nocase w t = eq_nocase s t.
+Proof.
+  revert w t; induction s as [|a s IH]; intros [|b w] t H; try discriminate; [reflexivity|].
+  cbn [same_nocase] in H. apply andb_true_iff in H. destruct H as [H1 H2]. unfold eq_nocase1 in H1. apply N.eqb_eq in H1.
+  destruct t as [|c t]; [reflexivity|]. unfold eq_nocase in *. cbn [list_eqb]. rewrite H1, (IH w t H2). reflexivity.
+Qed.
+
+Lemma classify_known tbl s w n : same_nocase s w = true ->
+  classify_name_attr_in tbl s = VCon n [] -> classify_name_attr_in tbl w = VCon n [].
+Proof.
+  intro H. induction tbl as [|[k m] tbl IH]; cbn [classify_name_attr_in]; [discriminate|].
+  rewrite (eq_nocase_congr s w k H). destruct (eq_nocase s k); [intro E; exact E | exact IH].
+Qed.
+
+Lemma classify_ext tbl w : (forall k, In k (map fst tbl) -> eq_nocase w k = false) ->
+  classify_name_attr_in tbl w = VCon "NameAttribute::Extension" [VBytes w].
+Proof.
+  induction tbl as [|[k m] tbl IH]; intro H; cbn [classify_name_attr_in]; [reflexivity|].
+  rewrite (H k (or_introl eq_refl)). apply IH. intros k' Hk'. apply H. right. exact Hk'.
+Qed.
+
+Lemma nocase_backslash b : eq_nocase1 92 b = true -> b = 92.
+Proof.
+  unfold eq_nocase1, lower. change (is_upper 92) with false. cbv iota. intro H. apply N.eqb_eq in H.
+  destruct (is_upper b) eqn:E; [|symmetry; exact H].
+  assert (b = 60) by lia. subst b. discriminate E.
+Qed.
+
+(* "\" followed by atom characters, as flag_extension reads it *)
+Lemma ok_flag_extension a d : forallb cls_core_x_is_atom_char a = true -> forallb (fun b => b <=? 127) a = true ->
+  OK (Ref f_rfc3501_x_flag_extension DSame) d (92 :: a) (VBytes (92 :: a)) (stops_at cls_core_x_is_atom_char).
+Proof.
+  intros Ha H7. apply (okref _ _ _ _ _ _ _ env_flag_ext). unfold def_rfc3501_x_flag_extension.
+  eapply ok_mapres.
+  { eapply ok_recognize. apply ok_seq. regroup ([92] ++ (a ++ [])).
+    eapply (okseq_cons _ _ _ _ _ _ _ _ _ _ any (stops_at cls_core_x_is_atom_char)); [apply ok_tag | | intros; exact I].
+    eapply (okseq_cons _ _ _ _ _ _ _ _ _ _ (stops_at cls_core_x_is_atom_char) (stops_at cls_core_x_is_atom_char)); [| apply (okseq_nil _ _ _ _ (stops_at cls_core_x_is_atom_char)) | intros r Hr; exact Hr].
+    apply ok_take_while. exact Ha. }
+  cbn. unfold native_call. cbn. rewrite ascii_utf8; [reflexivity|].
+  change (forallb (fun b => b <=? 127) (92 :: a) = true). cbn [forallb]. rewrite H7. reflexivity.
+Qed.
+
+Lemma known_attr_shape K w : same_nocase (92 :: K) w = true -> forallb kw_char K = true ->
+  exists a, w = 92 :: a /\ forallb cls_core_x_is_atom_char a = true /\ forallb (fun b => b <=? 127) a = true.
+Proof.
+  intros H HK. destruct w as [|b a]; [discriminate|]. cbn [same_nocase] in H. apply andb_true_iff in H. destruct H as [H1 H2].
+  apply nocase_backslash in H1. subst b. exists a. split; [reflexivity|]. exact (kw_chars_ok K a HK H2).
+Qed.
+
+Lemma known_tables_agree : map (fun Kn : string * string => bs (fst Kn)) rfc_name_attrs = map fst known_name_attrs.
+Proof. reflexivity. Qed.
+
+Lemma act_name_attr a : act native_call (mk_action (PVar "s") (ACall "rfc3501::name_attribute#1" [AVar "s"])) (VBytes a)
+  = AVal (classify_name_attr_in known_name_attrs a).
+Proof. reflexivity. Qed.
+
+Lemma ok_name_attr v w d : enc_name_attr v w -> OK (Ref f_rfc3501_x_name_attribute DSame) d w v (stops_at cls_core_x_is_atom_char).
+Proof.
+  intro H. apply (okref _ _ _ _ _ _ _ env_name_attribute). unfold def_rfc3501_x_name_attribute.
+  destruct H as [K n w Hin Hk | a Hne Ha Hno].
+  - unfold kw in Hk.
+    assert (Hshape : exists K', bs K = 92 :: K' /\ forallb kw_char K' = true /\ classify_name_attr_in known_name_attrs (bs K) = VCon n []).
+    { unfold rfc_name_attrs in Hin. cbn [In] in Hin.
+      repeat (destruct Hin as [Hin | Hin]; [inversion Hin; subst K n; eexists; split; [reflexivity | split; reflexivity] |]). destruct Hin. }
+    destruct Hshape as (K' & EK & HK' & Hcl). rewrite EK in Hk.
+    destruct (known_attr_shape K' w Hk HK') as (a & -> & A1 & A2).
+    eapply ok_map. { apply ok_flag_extension; assumption. }
+    rewrite act_name_attr. rewrite <- EK in Hk. rewrite (classify_known _ _ _ _ Hk Hcl). reflexivity.
+  - eapply ok_map.
+    { apply ok_flag_extension.
+      - apply (forallb_impl rfc_ATOM_CHAR); [intros x Hx; exact (proj1 (atom_char_facts x Hx)) | exact Ha].
+      - apply (forallb_impl rfc_ATOM_CHAR); [intros x Hx; exact (proj1 (proj2 (proj2 (atom_char_facts x Hx)))) | exact Ha]. }
+    rewrite act_name_attr. rewrite classify_ext; [reflexivity|].
+    intros k Hk. rewrite <- known_tables_agree in Hk. apply in_map_iff in Hk. destruct Hk as (Kn & <- & HKn).
+    rewrite forallb_forall in Hno. specialize (Hno Kn HKn). apply negb_true_iff in Hno.
+    rewrite eq_nocase_same_nocase. exact Hno.
+Qed.
+
+Lemma enc_name_attr_head v w : enc_name_attr v w -> exists r, w = 92 :: r.
+Proof.
+  intros [K n w0 Hin Hk | a _ _ _]; [|eexists; reflexivity]. unfold kw in Hk.
+  assert (E : exists K', bs K = 92 :: K').
+  { unfold rfc_name_attrs in Hin. cbn [In] in Hin.
+    repeat (destruct Hin as [Hin | Hin]; [inversion Hin; subst K n; eexists; reflexivity |]). destruct Hin. }
+  destruct E as (K' & EK). rewrite EK in Hk. destruct w0 as [|b r]; [discriminate|].
+  cbn [same_nocase] in Hk. apply andb_true_iff in Hk. destruct Hk as [H1 _]. apply nocase_backslash in H1. subst b. eexists. reflexivity.
+Qed.
+
+Lemma oksep_name_attrs l ws d : enc_name_attrs_more l ws ->
+  OkSep native_call env rk (Leaf (LTag (bs " "))) (Ref f_rfc3501_x_name_attribute DSame) d ws l closes.
+Proof.
+  intro H. induction H as [| a l w ws Ha Hl IH].
+  - apply oksep_nil. intros rest Hr. destruct rest as [|c r]; [destruct Hr|]. cbn in Hr. subst c. apply rej_tag. reflexivity.
+  - unfold SPb. eapply (oksep_cons _ _ _ _ _ _ _ _ _ _ _ _ any (stops_at cls_core_x_is_atom_char)).
+    + apply ok_tag.
+    + discriminate.
+    + apply ok_name_attr, Ha.
+    + exact IH.
+    + intros rest Hr. destruct Hl; cbn [app].
+      * destruct rest as [|c r]; [destruct Hr|]. cbn in Hr. subst c. reflexivity.
+      * reflexivity.
+    + intros; exact I.
+Qed.
+
+Lemma ok_name_attr_list v w d : enc_name_attr_list v w ->
+  OK (Map (mk_action (PTuple [PWild; PVar "p1"; PWild]) (AVar "p1"))
+        (Seq [(Leaf (LTag (bs "("))); (SepList0 (Leaf (LTag (bs " "))) (Ref f_rfc3501_x_name_attribute DSame)); (Leaf (LTag (bs ")")))])) d w v any.
+Proof.
+  intros [| a w0 l ws Ha Hl].
+  - eapply ok_map.
+    { apply ok_seq. regroup ([40] ++ ([] ++ ([41] ++ []))).
+      eapply (okseq_cons _ _ _ _ _ _ _ _ _ _ any any); [apply ok_tag | | intros; exact I].
+      eapply (okseq_cons _ _ _ _ _ _ _ _ _ _ closes any).
+      - apply ok_seplist0_empty. intros rest Hr. destruct rest as [|c r]; [destruct Hr|]. cbn in Hr. subst c.
+        apply (fails_on_byte native_call env rk rank_ok_all 8). vm_compute. reflexivity.
+      - eapply (okseq_cons _ _ _ _ _ _ _ _ _ _ any any); [apply ok_tag | apply (okseq_nil _ _ _ _ any) | intros; exact I].
+      - intros rest _. reflexivity. }
+    reflexivity.
+  - eapply ok_map.
+    { apply ok_seq. regroup ([40] ++ ((w0 ++ ws) ++ ([41] ++ []))).
+      eapply (okseq_cons _ _ _ _ _ _ _ _ _ _ any any); [apply ok_tag | | intros; exact I].
+      eapply (okseq_cons _ _ _ _ _ _ _ _ _ _ closes any).
+      - eapply (ok_seplist0 _ _ _ _ _ _ _ _ _ _ (stops_at cls_core_x_is_atom_char)).
+        + apply ok_name_attr, Ha.
+        + apply oksep_name_attrs, Hl.
+        + intros rest Hr. destruct Hl; cbn [app].
+          * destruct rest as [|c r]; [destruct Hr|]. cbn in Hr. subst c. reflexivity.
+          * reflexivity.
+      - eapply (okseq_cons _ _ _ _ _ _ _ _ _ _ any any); [apply ok_tag | apply (okseq_nil _ _ _ _ any) | intros; exact I].
+      - intros rest _. reflexivity. }
+    reflexivity.
+Qed.
+
+Definition delim_g : G :=
+  Alt [(Map (mk_action (PVar "x") (ASome (AVar "x"))) (Ref f_core_x_quoted_utf8 DSame));
+       (Map (mk_action (PWild) (ANone)) (Ref f_core_x_nil DSame))].
+
+Lemma ok_delim v w d : enc_delim v w -> OK delim_g d w v any.
+Proof.
+  intros [w0 Hn | s w0 Hq Hu]; unfold delim_g.
+  - apply ok_alt_skip.
+    + intros rest _. destruct Hn as [w1 Hk]. unfold kw in Hk. destruct w1 as [|c r]; [discriminate|].
+      cbn [app]. apply rej_map. apply (rejref _ _ _ _ _ env_quoted_utf8). unfold def_core_x_quoted_utf8. apply rej_mapres.
+      apply (rejref _ _ _ _ _ env_quoted). unfold def_core_x_quoted. apply rej_map, rej_seq_head, rej_tag.
+      change (bs "NIL") with [78; 73; 76] in Hk. cbn [same_nocase] in Hk. apply andb_true_iff in Hk. destruct Hk as [Hc _].
+      destruct (lower_variants _ _ Hc) as [<- | [<- | []]]; reflexivity.
+    + apply ok_alt_here. eapply ok_map. { apply ok_nil. constructor. destruct Hn as [w1 Hk]. exact Hk. } reflexivity.
+  - apply ok_alt_here. eapply ok_map.
+    { apply (okref _ _ _ _ _ _ _ env_quoted_utf8). unfold def_core_x_quoted_utf8.
+      eapply ok_mapres. { apply ok_quoted, Hq. } cbn. unfold native_call. cbn. rewrite Hu. reflexivity. }
+    reflexivity.
+Qed.
+
+Lemma ok_mailbox_list_body attrs wa dl wd m wm d : enc_name_attr_list attrs wa -> enc_delim dl wd -> enc_mailbox m wm ->
+  OK (Ref f_rfc3501_x_mailbox_list DSame) d (wa ++ SPb ++ wd ++ SPb ++ wm) (VTuple [attrs; dl; VBytes m]) (stops_at cls_core_x_is_astring_char).
+Proof.
+  intros Ha Hd Hm. apply (okref _ _ _ _ _ _ _ env_mailbox_list). unfold def_rfc3501_x_mailbox_list. fold delim_g.
+  eapply ok_map.
+  { apply ok_seq. unfold SPb. regroup (wa ++ ([32] ++ (wd ++ ([32] ++ (wm ++ []))))).
+    eapply (okseq_cons _ _ _ _ _ _ _ _ _ _ any (stops_at cls_core_x_is_astring_char)); [apply ok_name_attr_list, Ha | | intros; exact I].
+    eapply (okseq_cons _ _ _ _ _ _ _ _ _ _ any (stops_at cls_core_x_is_astring_char)); [apply ok_tag | | intros; exact I].
+    eapply (okseq_cons _ _ _ _ _ _ _ _ _ _ any (stops_at cls_core_x_is_astring_char)); [apply ok_delim, Hd | | intros; exact I].
+    eapply (okseq_cons _ _ _ _ _ _ _ _ _ _ any (stops_at cls_core_x_is_astring_char)); [apply ok_tag | | intros; exact I].
+    eapply (okseq_cons _ _ _ _ _ _ _ _ _ _ (stops_at cls_core_x_is_astring_char) (stops_at cls_core_x_is_astring_char));
+      [apply ok_mailbox, Hm | apply (okseq_nil _ _ _ _ (stops_at cls_core_x_is_astring_char)) | intros r Hr; exact Hr]. }
+  reflexivity.
+Qed.
+
+Lemma before_trailer_stops rest : before_trailer rest -> stops_at cls_core_x_is_astring_char rest.
+Proof. destruct rest as [|c r]; [intros []|]. intros [-> | ->]; reflexivity. Qed.
+
+Lemma ok_mailbox_list v body d : enc_mailbox_list v body -> OK (Alt rd_alts) d body v before_trailer.
+Proof.
+  intros [K k attrs wa dl wd m wm HK Hk Ha Hd Hm]. unfold kw in Hk.
+  apply (Ok_follow _ _ _ _ _ _ _ (stops_at cls_core_x_is_astring_char)); [|exact before_trailer_stops].
+  unfold rd_alts. cbn [def_rfc3501_x_response_data].
+  destruct HK as [-> | ->].
+  - apply (skip_kw _ _ (bs "LIST ") _ _ _ _ _ Hk); [vm_compute; reflexivity|].
+    apply ok_alt_here. eapply ok_map; [|reflexivity].
+    apply (okref _ _ _ _ _ _ _ env_mailbox_data). unfold def_rfc3501_x_mailbox_data.
+    do 2 (apply (skip_kw _ _ (bs "LIST ") _ _ _ _ _ Hk); [vm_compute; reflexivity|]).
+    apply ok_alt_here. apply (okref _ _ _ _ _ _ _ env_md_list). unfold def_rfc3501_x_mailbox_data_list.
+    eapply ok_map.
+    { eapply ok_map.
+      { apply ok_seq. regroup (k ++ ((wa ++ SPb ++ wd ++ SPb ++ wm) ++ [])).
+        eapply (okseq_cons _ _ _ _ _ _ _ _ _ _ any (stops_at cls_core_x_is_astring_char)); [apply ok_tag_nc, Hk | | intros; exact I].
+        eapply (okseq_cons _ _ _ _ _ _ _ _ _ _ (stops_at cls_core_x_is_astring_char) (stops_at cls_core_x_is_astring_char));
+          [apply ok_mailbox_list_body; eassumption | apply (okseq_nil _ _ _ _ (stops_at cls_core_x_is_astring_char)) | intros r Hr; exact Hr]. }
+      reflexivity. }
+    reflexivity.
+  - apply (skip_kw _ _ (bs "LSUB ") _ _ _ _ _ Hk); [vm_compute; reflexivity|].
+    apply ok_alt_here. eapply ok_map; [|reflexivity].
+    apply (okref _ _ _ _ _ _ _ env_mailbox_data). unfold def_rfc3501_x_mailbox_data.
+    do 3 (apply (skip_kw _ _ (bs "LSUB ") _ _ _ _ _ Hk); [vm_compute; reflexivity|]).
+    apply ok_alt_here. apply (okref _ _ _ _ _ _ _ env_md_lsub). unfold def_rfc3501_x_mailbox_data_lsub.
+    eapply ok_map.
+    { eapply ok_map.
+      { apply ok_seq. regroup (k ++ ((wa ++ SPb ++ wd ++ SPb ++ wm) ++ [])).
+        eapply (okseq_cons _ _ _ _ _ _ _ _ _ _ any (stops_at cls_core_x_is_astring_char)); [apply ok_tag_nc, Hk | | intros; exact I].
+        eapply (okseq_cons _ _ _ _ _ _ _ _ _ _ (stops_at cls_core_x_is_astring_char) (stops_at cls_core_x_is_astring_char));
+          [apply ok_mailbox_list_body; eassumption | apply (okseq_nil _ _ _ _ (stops_at cls_core_x_is_astring_char)) | intros r Hr; exact Hr]. }
+      reflexivity. }
+    reflexivity.
+Qed.
+
+Theorem data_roundtrip v w : enc_data_response v w -> forall rest, parse (w ++ rest) = ROk rest v (nlen w).
+Proof.
+  intros [v0 body sp Hb Hsp] rest. apply untagged_lift; [|exact Hsp]. intro d.
+  destruct Hb as [v1 b1 H | v1 b1 H | v1 b1 H | v1 b1 H]; [apply ok_untagged, H | apply ok_quota, H | apply ok_mailbox_status, H | apply ok_mailbox_list, H].
+Qed.
+
+(* ---------------------------------------------------------------- CAPABILITY *)
+Lemma env_capability_data : env f_rfc3501_x_capability_data = Some def_rfc3501_x_capability_data. Proof. reflexivity. Qed.
+Lemma env_capability : env f_rfc3501_x_capability = Some def_rfc3501_x_capability. Proof. reflexivity. Qed.
+Lemma env_atom : env f_core_x_atom = Some def_core_x_atom. Proof. reflexivity. Qed.
+
+Lemma ok_atom_bytes a d : a <> [] -> forallb cls_core_x_is_atom_char a = true -> forallb (fun b => b <=? 127) a = true ->
+  OK (Ref f_core_x_atom DSame) d a (VBytes a) (stops_at cls_core_x_is_atom_char).
+Proof.
+  intros Hne Hc H7. apply (okref _ _ _ _ _ _ _ env_atom). unfold def_core_x_atom.
+  eapply ok_mapres. { apply ok_take_while1; assumption. } cbn. unfold native_call. cbn. rewrite (ascii_utf8 a H7). reflexivity.
+Qed.
+
+Lemma ok_cap c w d : enc_cap c w -> OK (Ref f_rfc3501_x_capability DSame) d w c (stops_at cls_core_x_is_atom_char).
+Proof.
+  intro H. apply (okref _ _ _ _ _ _ _ env_capability). unfold def_rfc3501_x_capability.
+  destruct H as [w Hk | p m Hp Hne Hm | a Hne Ha N1 N2]; unfold kw in *.
+  - destruct (kw_chars_ok (bs "IMAP4rev1") w ltac:(reflexivity) Hk) as [C1 C2].
+    eapply ok_map. { apply ok_atom_bytes; [destruct w; discriminate | exact C1 | exact C2]. }
+    cbn. unfold native_call. cbn. unfold classify_capability. rewrite (same_nocase_eq_nocase _ _ Hk). reflexivity.
+  - destruct (kw_chars_ok (bs "AUTH=") p ltac:(reflexivity) Hp) as [C1 C2].
+    assert (Hm1 : forallb cls_core_x_is_atom_char m = true) by (apply (forallb_impl rfc_ATOM_CHAR); [intros x Hx; exact (proj1 (atom_char_facts x Hx)) | exact Hm]).
+    assert (Hm2 : forallb (fun b => b <=? 127) m = true) by (apply (forallb_impl rfc_ATOM_CHAR); [intros x Hx; exact (proj1 (proj2 (proj2 (atom_char_facts x Hx)))) | exact Hm]).
+    eapply ok_map.
+    { apply ok_atom_bytes; [destruct p; discriminate | rewrite forallb_app, C1, Hm1; reflexivity |].
+      change byte with N in *. rewrite forallb_app, C2, Hm2. reflexivity. }
+    cbn. unfold native_call. cbn. unfold classify_capability.
+    (* p has exactly five bytes *)
+    change (bs "AUTH=") with [65; 85; 84; 72; 61] in Hp |- *. change (bs "IMAP4rev1") with [73; 77; 65; 80; 52; 114; 101; 118; 49].
+    destruct p as [|p1 [|p2 [|p3 [|p4 [|p5 [|p6 p']]]]]]; cbn [same_nocase] in Hp; rewrite ?andb_false_r in Hp; try discriminate Hp.
+    pose proof Hp as Hp0. apply andb_true_iff in Hp. destruct Hp as [Hp1 _].
+    assert (E1 : eq_nocase ([p1; p2; p3; p4; p5] ++ m) [73; 77; 65; 80; 52; 114; 101; 118; 49] = false).
+    { unfold eq_nocase. cbn [app list_eqb]. unfold eq_nocase1 in Hp1. apply N.eqb_eq in Hp1.
+      replace (lower p1 =? lower 73) with false; [reflexivity|]. symmetry. apply N.eqb_neq. rewrite <- Hp1. discriminate. }
+    rewrite E1.
+    assert (E2 : Nat.ltb 5 (length ([p1; p2; p3; p4; p5] ++ m)) = true).
+    { apply Nat.ltb_lt. rewrite app_length. cbn [length]. destruct m; [contradiction | cbn [length]; lia]. }
+    rewrite E2. cbn [app firstn skipn andb].
+    rewrite (same_nocase_eq_nocase [65; 85; 84; 72; 61] [p1; p2; p3; p4; p5] Hp0). reflexivity.
+  - eapply ok_map.
+    { apply ok_atom_bytes; [exact Hne | |].
+      - apply (forallb_impl rfc_ATOM_CHAR); [intros x Hx; exact (proj1 (atom_char_facts x Hx)) | exact Ha].
+      - apply (forallb_impl rfc_ATOM_CHAR); [intros x Hx; exact (proj1 (proj2 (proj2 (atom_char_facts x Hx)))) | exact Ha]. }
+    cbn. unfold native_call. cbn. unfold classify_capability. rewrite N1, N2. reflexivity.
+Qed.
+
+Definition cap_item : G := Map proj12 (Seq [Leaf (LTag (bs " ")); Ref f_rfc3501_x_capability DSame]).
+Definition caps_end (rest : list byte) : Prop :=
+  match rest with
+  | 13 :: _ => True
+  | 32 :: c :: _ => cls_core_x_is_atom_char c = false
+  | _ => False
+  end.
+
+Lemma byte_13_32 c0 (P : Prop) : (c0 = 13 -> P) -> (c0 = 32 -> P) -> (c0 <> 13 -> c0 <> 32 -> P) -> P.
+Proof. intros A B C. destruct (N.eq_dec c0 13); [auto|]. destruct (N.eq_dec c0 32); auto. Qed.
+
+Lemma caps_end_inv rest : caps_end rest ->
+  (exists r, rest = 13 :: r) \/ (exists c r, rest = 32 :: c :: r /\ cls_core_x_is_atom_char c = false).
+Proof.
+  destruct rest as [|c0 r]; [intros []|]. intro H.
+  apply (byte_13_32 c0); intros.
+  - subst. left. eexists. reflexivity.
+  - subst. destruct r as [|c r']; [destruct H|]. right. exists c, r'. split; [reflexivity | exact H].
+  - exfalso. cbn in H. destruct c0 as [|p]; [exact H|].
+    repeat (destruct p as [p|p|]; try exact H; try (apply H0; reflexivity); try (apply H1; reflexivity)).
+Qed.
+
+Lemma rej_atom_nonatom c i d : cls_core_x_is_atom_char c = false -> REJ (Ref f_rfc3501_x_capability DSame) d (c :: i).
+Proof.
+  intro H. apply (rejref _ _ _ _ _ env_capability). unfold def_rfc3501_x_capability. apply rej_map.
+  apply (rejref _ _ _ _ _ env_atom). unfold def_core_x_atom. apply rej_mapres, rej_take_while1. exact H.
+Qed.
+
+Lemma rej_cap_item rest d : caps_end rest -> REJ cap_item d rest.
+Proof.
+  intro H. unfold cap_item. apply rej_map. destruct (caps_end_inv rest H) as [(r & ->) | (c & r & -> & Hc)].
+  - apply rej_seq_head, rej_tag. reflexivity.
+  - change (32 :: c :: r) with ([32] ++ (c :: r)).
+    eapply (rej_seq_after _ _ _ _ _ _ _ _ any); [apply ok_tag | exact I |]. apply rejseq_head. apply rej_atom_nonatom, Hc.
+Qed.
+
+Lemma okmany_caps l ws d : enc_caps l ws -> OkMany native_call env rk cap_item d ws l caps_end.
+Proof.
+  intro H. induction H as [| c w l ws Hc Hl IH].
+  - apply okmany_nil. intros rest Hr. apply rej_cap_item, Hr.
+  - unfold SPb. rewrite app_assoc. eapply (okmany_cons _ _ _ _ _ _ _ _ _ (stops_at cls_core_x_is_atom_char)).
+    + unfold cap_item. eapply ok_map.
+      { apply ok_seq. regroup ([32] ++ (w ++ [])).
+        eapply (okseq_cons _ _ _ _ _ _ _ _ _ _ any (stops_at cls_core_x_is_atom_char)); [apply ok_tag | | intros; exact I].
+        eapply (okseq_cons _ _ _ _ _ _ _ _ _ _ (stops_at cls_core_x_is_atom_char) (stops_at cls_core_x_is_atom_char)); [apply ok_cap, Hc | apply (okseq_nil _ _ _ _ (stops_at cls_core_x_is_atom_char)) | intros r Hr; exact Hr]. }
+      reflexivity.
+    + discriminate.
+    + exact IH.
+    + intros rest Hr. destruct Hl; cbn [app].
+      * destruct (caps_end_inv rest Hr) as [(r & ->) | (c0 & r & -> & _)]; reflexivity.
+      * reflexivity.
+Qed.
+
+Lemma contains_rev1 l : In (VCon "Capability::Imap4rev1" []) l -> contains_imap4rev1 (VList l) = true.
+Proof.
+  intro H. unfold contains_imap4rev1. apply existsb_exists. eexists. split; [exact H | reflexivity].
+Qed.
+
+Lemma ok_capability_data v body d : enc_capability_data v body -> OK (Alt rd_alts) d body v caps_end.
+Proof.
+  intros [k l w Hk Hl Hin]. unfold kw in Hk. unfold rd_alts. cbn [def_rfc3501_x_response_data].
+  do 4 (apply (skip_kw _ _ (bs "CAPABILITY") _ _ _ _ _ Hk); [vm_compute; reflexivity|]).
+  apply ok_alt_here. eapply ok_map; [|reflexivity].
+  apply (okref _ _ _ _ _ _ _ env_capability_data). unfold def_rfc3501_x_capability_data. fold cap_item.
+  eapply ok_mapres.
+  { eapply ok_map.
+    { apply ok_seq. regroup (k ++ (w ++ [])).
+      eapply (okseq_cons _ _ _ _ _ _ _ _ _ _ any caps_end); [apply ok_tag_nc, Hk | | intros; exact I].
+      eapply (okseq_cons _ _ _ _ _ _ _ _ _ _ caps_end caps_end); [apply ok_many0, okmany_caps, Hl | apply (okseq_nil _ _ _ _ caps_end) | intros r Hr; exact Hr]. }
+    reflexivity. }
+  unfold act. cbn [a_pat a_body bind eval eval_list of_lres lookup String.eqb Ascii.eqb Bool.eqb].
+  unfold native_call. cbn [String.eqb Ascii.eqb Bool.eqb]. rewrite (contains_rev1 l Hin). reflexivity.
+Qed.
+
+Lemma spaces_caps_end sp r : enc_spaces sp -> caps_end (sp ++ [13; 10] ++ r).
+Proof.
+  intros [|w H]; cbn [app]; [exact I|]. destruct H as [|w' H']; cbn [app]; reflexivity.
+Qed.
+
+Theorem capability_roundtrip v body sp : enc_capability_data v body -> enc_spaces sp -> forall rest,
+  parse ((bs "* " ++ body ++ sp ++ [13; 10]) ++ rest) = ROk rest v (nlen (bs "* " ++ body ++ sp ++ [13; 10])).
+Proof.
+  intros Hb Hsp rest. apply (untagged_lift_gen body v caps_end sp (fun d => ok_capability_data v body d Hb) Hsp).
+  intro r. apply spaces_caps_end, Hsp.
+Qed.
+
+(* ---------------------------------------------------------------- ENABLED *)
+Lemma env_resp_enabled : env f_rfc5161_x_resp_enabled = Some def_rfc5161_x_resp_enabled. Proof. reflexivity. Qed.
+Lemma env_enabled_data : env f_rfc5161_x_enabled_data = Some def_rfc5161_x_enabled_data. Proof. reflexivity. Qed.
+Lemma env_capability_5161 : env f_rfc5161_x_capability = Some def_rfc5161_x_capability. Proof. reflexivity. Qed.
+
+Definition enabled_item : G := Map proj12 (Seq [Leaf (LTag (bs " ")); Ref f_rfc5161_x_capability DSame]).
+
+Lemma ok_enabled_cap a d : a <> [] -> forallb rfc_ATOM_CHAR a = true ->
+  OK (Ref f_rfc5161_x_capability DSame) d a (VCon "Capability::Atom" [VBytes a]) (stops_at cls_core_x_is_atom_char).
+Proof.
+  intros Hne Ha. apply (okref _ _ _ _ _ _ _ env_capability_5161). unfold def_rfc5161_x_capability.
+  eapply ok_map.
+  { eapply ok_map.
+    { apply ok_atom_bytes; [exact Hne | |].
+      - apply (forallb_impl rfc_ATOM_CHAR); [intros x Hx; exact (proj1 (atom_char_facts x Hx)) | exact Ha].
+      - apply (forallb_impl rfc_ATOM_CHAR); [intros x Hx; exact (proj1 (proj2 (proj2 (atom_char_facts x Hx)))) | exact Ha]. }
+    reflexivity. }
+  reflexivity.
+Qed.
+
+Lemma rej_enabled_item rest d : caps_end rest -> REJ enabled_item d rest.
+Proof.
+  intro H. unfold enabled_item. apply rej_map. destruct (caps_end_inv rest H) as [(r & ->) | (c & r & -> & Hc)].
+  - apply rej_seq_head, rej_tag. reflexivity.
+  - change (32 :: c :: r) with ([32] ++ (c :: r)).
+    eapply (rej_seq_after _ _ _ _ _ _ _ _ any); [apply ok_tag | exact I |]. apply rejseq_head.
+    apply (rejref _ _ _ _ _ env_capability_5161). unfold def_rfc5161_x_capability. apply rej_map, rej_map.
+    apply (rejref _ _ _ _ _ env_atom). unfold def_core_x_atom. apply rej_mapres, rej_take_while1. exact Hc.
+Qed.
+
+Lemma okmany_enabled l ws d : enc_enabled_more l ws -> OkMany native_call env rk enabled_item d ws l caps_end.
+Proof.
+  intro H. induction H as [| a l ws Hne Ha Hl IH].
+  - apply okmany_nil. intros rest Hr. apply rej_enabled_item, Hr.
+  - unfold SPb. rewrite app_assoc. eapply (okmany_cons _ _ _ _ _ _ _ _ _ (stops_at cls_core_x_is_atom_char)).
+    + unfold enabled_item. eapply ok_map.
+      { apply ok_seq. regroup ([32] ++ (a ++ [])).
+        eapply (okseq_cons _ _ _ _ _ _ _ _ _ _ any (stops_at cls_core_x_is_atom_char)); [apply ok_tag | | intros; exact I].
+        eapply (okseq_cons _ _ _ _ _ _ _ _ _ _ (stops_at cls_core_x_is_atom_char) (stops_at cls_core_x_is_atom_char)); [apply ok_enabled_cap; assumption | apply (okseq_nil _ _ _ _ (stops_at cls_core_x_is_atom_char)) | intros r Hr; exact Hr]. }
+      reflexivity.
+    + discriminate.
+    + exact IH.
+    + intros rest Hr. destruct Hl; cbn [app].
+      * destruct (caps_end_inv rest Hr) as [(r & ->) | (c0 & r & -> & _)]; reflexivity.
+      * reflexivity.
+Qed.
+
+Lemma ok_enabled_data v body d : enc_enabled_data v body -> OK (Alt rd_alts) d body v caps_end.
+Proof.
+  intros [k l w Hk Hl]. unfold kw in Hk. unfold rd_alts. cbn [def_rfc3501_x_response_data].
+  do 5 (apply (skip_kw _ _ (bs "ENABLED") _ _ _ _ _ Hk); [vm_compute; reflexivity|]).
+  apply ok_alt_here. apply (okref _ _ _ _ _ _ _ env_resp_enabled). unfold def_rfc5161_x_resp_enabled.
+  eapply ok_map.
+  { apply (okref _ _ _ _ _ _ _ env_enabled_data). unfold def_rfc5161_x_enabled_data. fold proj12. fold enabled_item.
+    eapply ok_map.
+    { apply ok_seq. regroup (k ++ (w ++ [])).
+      eapply (okseq_cons _ _ _ _ _ _ _ _ _ _ any caps_end); [apply ok_tag_nc, Hk | | intros; exact I].
+      eapply (okseq_cons _ _ _ _ _ _ _ _ _ _ caps_end caps_end); [apply ok_many0, okmany_enabled, Hl | apply (okseq_nil _ _ _ _ caps_end) | intros r Hr; exact Hr]. }
+    reflexivity. }
+  reflexivity.
+Qed.
+
+Theorem enabled_roundtrip v body sp : enc_enabled_data v body -> enc_spaces sp -> forall rest,
+  parse ((bs "* " ++ body ++ sp ++ [13; 10]) ++ rest) = ROk rest v (nlen (bs "* " ++ body ++ sp ++ [13; 10])).
+Proof.
+  intros Hb Hsp rest. apply (untagged_lift_gen body v caps_end sp (fun d => ok_enabled_data v body d Hb) Hsp).
+  intro r. apply spaces_caps_end, Hsp.
+Qed.
+
+(* ---------------------------------------------------------------- QUOTAROOT *)
+Lemma env_quota_root : env f_rfc2087_x_quota_root = Some def_rfc2087_x_quota_root. Proof. reflexivity. Qed.
+
+Definition idmap : action := mk_action (PVar "x") (AVar "x").
+Definition qr_item : G := Map proj12 (Seq [(Leaf (LTakeWhile1 nom_is_space)); (Map idmap (Ref f_core_x_astring_utf8 DSame))]).
+Definition qr_end (rest : list byte) : Prop := exists sp r, enc_spaces sp /\ rest = sp ++ 13 :: r.
+
+Lemma qr_end_head rest : qr_end rest -> exists c r, rest = c :: r /\ (c = 32 \/ c = 13).
+Proof. intros (sp & r & [|w Hs] & ->); cbn [app]; eexists _, _; (split; [reflexivity|]); [right | left]; reflexivity. Qed.
+
+Lemma qr_end_stops rest : qr_end rest -> stops_at cls_core_x_is_astring_char rest.
+Proof. intro H. destruct (qr_end_head rest H) as (c & r & -> & [-> | ->]); reflexivity. Qed.
+
+Lemma spaces_ws1 sp : enc_spaces sp -> sp <> [] -> enc_ws1 sp.
+Proof.
+  intros H Hne. constructor; [exact Hne|]. clear Hne. induction H as [|w H IH]; [reflexivity|]. cbn [forallb]. rewrite IH. reflexivity.
+Qed.
+
+Lemma rej_qr_item rest d : qr_end rest -> REJ qr_item d rest.
+Proof.
+  intros (sp & r & Hs & ->). unfold qr_item. apply rej_map. destruct sp as [|c sp'].
+  - cbn [app]. apply rej_seq_head, rej_take_while1. reflexivity.
+  - eapply (rej_seq_after _ _ _ _ _ _ _ _ (stops_at nom_is_space)); [apply ok_ws1, spaces_ws1; [exact Hs | discriminate] | reflexivity |].
+    apply rejseq_head. apply (fails_on_byte native_call env rk rank_ok_all 8). vm_compute. reflexivity.
+Qed.
+
+Lemma ok_qr_item s n wn d : enc_ws1 s -> enc_astring n wn -> utf8_valid n = true ->
+  OK qr_item d (s ++ wn) (VBytes n) (stops_at cls_core_x_is_astring_char).
+Proof.
+  intros Hs Hn Hu. unfold qr_item. eapply ok_map.
+  { apply ok_seq. regroup (s ++ (wn ++ [])).
+    eapply (okseq_cons _ _ _ _ _ _ _ _ _ _ (stops_at nom_is_space) (stops_at cls_core_x_is_astring_char)); [apply ok_ws1, Hs | |].
+    - eapply (okseq_cons _ _ _ _ _ _ _ _ _ _ (stops_at cls_core_x_is_astring_char) (stops_at cls_core_x_is_astring_char));
+        [eapply ok_map; [apply ok_astring_utf8; eassumption | reflexivity] | apply (okseq_nil _ _ _ _ (stops_at cls_core_x_is_astring_char)) | intros r Hr; exact Hr].
+    - intros rest _. destruct (enc_astring_head n wn Hn) as (c & r & -> & Hc). cbn [app]. exact Hc. }
+  reflexivity.
+Qed.
+
+Lemma enc_ws1_head s : enc_ws1 s -> exists c r, s = c :: r /\ cls_core_x_is_astring_char c = false.
+Proof. intro H. destruct (ws1_head s H) as (c & r & -> & _ & _ & Hc). eexists _, _. split; [reflexivity | exact Hc]. Qed.
+
+Lemma okmany_quotaroots l ws d : enc_quotaroot_names l ws -> OkMany native_call env rk qr_item d ws l qr_end.
+Proof.
+  intro H. induction H as [| s n wn l ws Hs Hn Hu Hl IH].
+  - apply okmany_nil. intros rest Hr. apply rej_qr_item, Hr.
+  - rewrite app_assoc. eapply (okmany_cons _ _ _ _ _ _ _ _ _ (stops_at cls_core_x_is_astring_char)).
+    + apply ok_qr_item; assumption.
+    + destruct Hs as [s0 Hne _]. destruct s0; [contradiction | discriminate].
+    + exact IH.
+    + intros rest Hr. destruct Hl as [| s' n' wn' l' ws' Hs' _ _ _]; cbn [app].
+      * apply qr_end_stops, Hr.
+      * destruct (enc_ws1_head s' Hs') as (c & r & -> & Hc). cbn [app]. exact Hc.
+Qed.
+
+Lemma ok_quotaroot v body d : enc_quotaroot v body -> OK (Alt rd_alts) d body v qr_end.
+Proof.
+  intros [k s m wm l ws Hk Hs Hm Hu Hl]. unfold kw in Hk. unfold rd_alts. cbn [def_rfc3501_x_response_data].
+  do 9 (apply (skip_kw _ _ (bs "QUOTAROOT") _ _ _ _ _ Hk); [vm_compute; reflexivity|]).
+  apply ok_alt_skip.
+  { (* QUOTA matches the first five bytes, then wants a space where "ROOT" stands *)
+    intros rest _. apply (rejref _ _ _ _ _ env_quota). unfold def_rfc2087_x_quota. apply rej_map.
+    change (bs "QUOTAROOT") with [81; 85; 79; 84; 65; 82; 79; 79; 84] in Hk.
+    destruct k as [|k1 [|k2 [|k3 [|k4 [|k5 [|k6 k']]]]]]; cbn [same_nocase] in Hk; rewrite ?andb_false_r in Hk; try discriminate Hk.
+    apply andb_true_iff in Hk. destruct Hk as [H1 Hk]. apply andb_true_iff in Hk. destruct Hk as [H2 Hk].
+    apply andb_true_iff in Hk. destruct Hk as [H3 Hk]. apply andb_true_iff in Hk. destruct Hk as [H4 Hk].
+    apply andb_true_iff in Hk. destruct Hk as [H5 Hk]. apply andb_true_iff in Hk. destruct Hk as [H6 _].
+    assert (E : forall t : list byte, (k1 :: k2 :: k3 :: k4 :: k5 :: k6 :: k') ++ t = [k1; k2; k3; k4; k5] ++ (k6 :: k' ++ t)) by reflexivity.
+    rewrite <- app_assoc. rewrite E.
+    eapply (rej_seq_after _ _ _ _ _ _ _ _ any).
+    - apply ok_tag_nc. change (bs "QUOTA") with [81; 85; 79; 84; 65]. cbn [same_nocase]. rewrite H1, H2, H3, H4, H5. reflexivity.
+    - exact I.
+    - apply rejseq_head, rej_take_while1. destruct (lower_variants _ _ H6) as [<- | [<- | []]]; reflexivity. }
+  apply ok_alt_here. apply (okref _ _ _ _ _ _ _ env_quota_root). unfold def_rfc2087_x_quota_root. fold idmap. fold proj12. fold qr_item.
+  eapply ok_map.
+  { apply ok_seq. regroup (k ++ (s ++ (wm ++ (ws ++ [])))).
+    eapply (okseq_cons _ _ _ _ _ _ _ _ _ _ any qr_end); [apply ok_tag_nc, Hk | | intros; exact I].
+    eapply (okseq_cons _ _ _ _ _ _ _ _ _ _ (stops_at nom_is_space) qr_end); [apply ok_ws1, Hs | |].
+    - eapply (okseq_cons _ _ _ _ _ _ _ _ _ _ (stops_at cls_core_x_is_astring_char) qr_end).
+      + eapply ok_map; [apply ok_astring_utf8; eassumption | reflexivity].
+      + eapply (okseq_cons _ _ _ _ _ _ _ _ _ _ qr_end qr_end); [apply ok_many0, okmany_quotaroots, Hl | apply (okseq_nil _ _ _ _ qr_end) | intros r Hr; exact Hr].
+      + intros rest Hr. rewrite app_nil_r. destruct Hl as [| s' n' wn' l' ws' Hs' _ _ _]; cbn [app].
+        * apply qr_end_stops, Hr.
+        * destruct (enc_ws1_head s' Hs') as (c & r & -> & Hc). cbn [app]. exact Hc.
+    - intros rest _. destruct (enc_astring_head m wm Hm) as (c & r & -> & Hc). cbn [app]. exact Hc. }
+  reflexivity.
+Qed.
+
+Theorem quotaroot_roundtrip v body sp : enc_quotaroot v body -> enc_spaces sp -> forall rest,
+  parse ((bs "* " ++ body ++ sp ++ [13; 10]) ++ rest) = ROk rest v (nlen (bs "* " ++ body ++ sp ++ [13; 10])).
+Proof.
+  intros Hb Hsp rest. apply (untagged_lift_gen body v qr_end sp (fun d => ok_quotaroot v body d Hb) Hsp).
+  intro r. exists sp, (10 :: r). split; [exact Hsp | reflexivity].
+Qed.
+
+(* ---------------------------------------------------------------- MYRIGHTS *)
+Lemma env_my_rights : env f_rfc4314_x_my_rights = Some def_rfc4314_x_my_rights. Proof. reflexivity. Qed.
+
+Lemma utf8_chars_ascii s : forallb (fun b => b <=? 127) s = true -> utf8_chars s = s.
+Proof.
+  induction s as [|c s IH]; intro H; [reflexivity|]. cbn [forallb] in H. apply andb_true_iff in H. destruct H as [Hc Hs].
+  cbn [utf8_chars]. replace (c <? 128) with true by (symmetry; apply N.ltb_lt; apply N.leb_le in Hc; lia). rewrite (IH Hs). reflexivity.
+Qed.
+
+Lemma acl_right_table c : acl_right c = rfc_right_in rfc_rights c.
+Proof. reflexivity. Qed.
+
+Definition rights_g : G := Map (mk_action (PVar "x") (ACall "rfc4314::map_text_to_rights" [AVar "x"])) (Ref f_core_x_astring_utf8 DSame).
+
+Lemma ok_rights r w d : enc_rights r w -> OK rights_g d w r (stops_at cls_core_x_is_astring_char).
+Proof.
+  intros [s w0 Hs H7]. unfold rights_g. eapply ok_map. { apply ok_astring_utf8; [exact Hs | apply ascii_utf8, H7]. }
+  cbn. unfold native_call. cbn. unfold rights_of. rewrite (utf8_chars_ascii s H7).
+  first [reflexivity | do 2 f_equal; apply map_ext; intro c; apply acl_right_table].
+Qed.
+
+Lemma enc_rights_head r w : enc_rights r w -> exists c t, w = c :: t /\ nom_is_space c = false.
+Proof. intros [s w0 Hs _]. exact (enc_astring_head s w0 Hs). Qed.
+
+Lemma enc_mailbox_head m w : enc_mailbox m w -> exists c t, w = c :: t /\ nom_is_space c = false.
+Proof. intros [s w0 Hs _]. exact (enc_astring_head s w0 Hs). Qed.
+
+Lemma ok_myrights v body d : enc_myrights v body -> OK (Alt rd_alts) d body v before_trailer.
+Proof.
+  intros [k s1 m wm s2 r wr Hk H1 Hm H2 Hr]. unfold kw in Hk.
+  apply (Ok_follow _ _ _ _ _ _ _ (stops_at cls_core_x_is_astring_char)); [|exact before_trailer_stops].
+  unfold rd_alts. cbn [def_rfc3501_x_response_data].
+  do 14 (apply (skip_kw _ _ (bs "MYRIGHTS") _ _ _ _ _ Hk); [vm_compute; reflexivity|]).
+  apply ok_alt_here. apply (okref _ _ _ _ _ _ _ env_my_rights). unfold def_rfc4314_x_my_rights. fold idmap. fold rights_g.
+  destruct (enc_ws1_head _ H2) as (c2 & r2 & E2 & A2).
+  eapply ok_map.
+  { apply ok_seq. regroup (k ++ (s1 ++ (wm ++ (s2 ++ (wr ++ []))))).
+    eapply (okseq_cons _ _ _ _ _ _ _ _ _ _ any (stops_at cls_core_x_is_astring_char)); [apply ok_tag_nc, Hk | | intros; exact I].
+    eapply (okseq_cons _ _ _ _ _ _ _ _ _ _ (stops_at nom_is_space) (stops_at cls_core_x_is_astring_char)); [apply ok_ws1, H1 | |].
+    - eapply (okseq_cons _ _ _ _ _ _ _ _ _ _ (stops_at cls_core_x_is_astring_char) (stops_at cls_core_x_is_astring_char)).
+      + eapply ok_map; [apply ok_mailbox, Hm | reflexivity].
+      + eapply (okseq_cons _ _ _ _ _ _ _ _ _ _ (stops_at nom_is_space) (stops_at cls_core_x_is_astring_char)); [apply ok_ws1, H2 | |].
+        * eapply (okseq_cons _ _ _ _ _ _ _ _ _ _ (stops_at cls_core_x_is_astring_char) (stops_at cls_core_x_is_astring_char));
+            [apply ok_rights, Hr | apply (okseq_nil _ _ _ _ (stops_at cls_core_x_is_astring_char)) | intros t Ht; exact Ht].
+        * intros rest _. destruct (enc_rights_head r wr Hr) as (c & t & -> & Hc). cbn [app]. exact Hc.
+      + intros rest _. rewrite E2. cbn [app]. exact A2.
+    - intros rest _. destruct (enc_mailbox_head m wm Hm) as (c & t & -> & Hc). cbn [app]. exact Hc. }
+  reflexivity.
+Qed.
+
+Theorem myrights_roundtrip v body sp : enc_myrights v body -> enc_spaces sp -> forall rest,
+  parse ((bs "* " ++ body ++ sp ++ [13; 10]) ++ rest) = ROk rest v (nlen (bs "* " ++ body ++ sp ++ [13; 10])).
+Proof.
+  intros Hb Hsp rest. apply (untagged_lift_gen body v before_trailer sp (fun d => ok_myrights v body d Hb) Hsp).
+  intro r. apply spaces_then_crlf, Hsp.
+Qed.
+
+(* ---------------------------------------------------------------- ACL *)
+Lemma env_acl : env f_rfc4314_x_acl = Some def_rfc4314_x_acl. Proof. reflexivity. Qed.
+Lemma env_acl_list : env f_rfc4314_x_acl_list = Some def_rfc4314_x_acl_list. Proof. reflexivity. Qed.
+Lemma env_acl_entry : env f_rfc4314_x_acl_entry = Some def_rfc4314_x_acl_entry. Proof. reflexivity. Qed.
+
+Lemma okseq_cons' g gs d w w1 w2 v vs (F1 F2 : list byte -> Prop) : w = w1 ++ w2 ->
+  OK g d w1 v F1 -> OkSeq native_call env rk gs d w2 vs F2 -> (forall rest, F2 rest -> F1 (w2 ++ rest)) ->
+  OkSeq native_call env rk (g :: gs) d w (v :: vs) F2.
+Proof. intros ->. apply okseq_cons. Qed.
+
+Lemma ok_acl_entry e w d : enc_acl_entry e w -> OK (Ref f_rfc4314_x_acl_entry DSame) d w e (stops_at cls_core_x_is_astring_char).
+Proof.
+  intros [i wi s r wr Hi Hu Hs Hr]. apply (okref _ _ _ _ _ _ _ env_acl_entry). unfold def_rfc4314_x_acl_entry. fold idmap. fold rights_g.
+  destruct (enc_ws1_head _ Hs) as (c2 & r2 & E2 & A2).
+  eapply ok_map.
+  { eapply ok_map.
+    { apply ok_seq. regroup (wi ++ (s ++ (wr ++ []))).
+      eapply (okseq_cons _ _ _ _ _ _ _ _ _ _ (stops_at cls_core_x_is_astring_char) (stops_at cls_core_x_is_astring_char)).
+      - eapply ok_map; [apply ok_astring_utf8; eassumption | reflexivity].
+      - eapply (okseq_cons _ _ _ _ _ _ _ _ _ _ (stops_at nom_is_space) (stops_at cls_core_x_is_astring_char)); [apply ok_ws1, Hs | |].
+        + eapply (okseq_cons _ _ _ _ _ _ _ _ _ _ (stops_at cls_core_x_is_astring_char) (stops_at cls_core_x_is_astring_char));
+            [apply ok_rights, Hr | apply (okseq_nil _ _ _ _ (stops_at cls_core_x_is_astring_char)) | intros t Ht; exact Ht].
+        + intros rest _. destruct (enc_rights_head r wr Hr) as (c & t & -> & Hc). cbn [app]. exact Hc.
+      - intros rest _. rewrite E2. cbn [app]. exact A2. }
+    reflexivity. }
+  reflexivity.
+Qed.
+
+Lemma enc_acl_entry_head e w : enc_acl_entry e w -> exists c t, w = c :: t /\ nom_is_space c = false.
+Proof. intros [i wi s r wr Hi _ _ _]. destruct (enc_astring_head i wi Hi) as (c & t & -> & Hc). eexists _, _. split; [reflexivity | exact Hc]. Qed.
+
+Lemma rej_sep_or_elem g rest d : (forall r, REJ g d (13 :: r)) -> qr_end rest ->
+  REJ (Leaf (LTakeWhile1 nom_is_space)) d rest \/
+  exists ws sv r2 (Fs : list byte -> Prop), rest = ws ++ r2 /\ OK (Leaf (LTakeWhile1 nom_is_space)) d ws sv Fs /\ Fs r2 /\ ws <> [] /\ REJ g d r2.
+Proof.
+  intros Hg (sp & r & Hs & ->). destruct sp as [|c sp'].
+  - left. cbn [app]. apply rej_take_while1. reflexivity.
+  - right. exists (c :: sp'), (VBytes (c :: sp')), (13 :: r), (stops_at nom_is_space).
+    split; [reflexivity|]. split; [apply ok_ws1, spaces_ws1; [exact Hs | discriminate]|].
+    split; [reflexivity|]. split; [discriminate|]. apply Hg.
+Qed.
+
+Lemma rej_acl_entry_cr d r : REJ (Ref f_rfc4314_x_acl_entry DSame) d (13 :: r).
+Proof. apply (fails_on_byte native_call env rk rank_ok_all 8). vm_compute. reflexivity. Qed.
+
+Lemma oksep_acl l ws d : enc_acl_more l ws ->
+  OkSep native_call env rk (Leaf (LTakeWhile1 nom_is_space)) (Ref f_rfc4314_x_acl_entry DSame) d ws l qr_end.
+Proof.
+  intro H. induction H as [| s e w l ws Hs He Hl IH].
+  - apply oksep_nil_elem. intros rest Hr. apply rej_sep_or_elem; [intro r; apply rej_acl_entry_cr | exact Hr].
+  - eapply (oksep_cons _ _ _ _ _ _ _ _ _ _ _ _ (stops_at nom_is_space) (stops_at cls_core_x_is_astring_char)).
+    + apply ok_ws1, Hs.
+    + destruct Hs as [s0 Hne _]. exact Hne.
+    + apply ok_acl_entry, He.
+    + exact IH.
+    + intros rest Hr. destruct Hl as [| s' e' w' l' ws' Hs' _ _]; cbn [app].
+      * apply qr_end_stops, Hr.
+      * destruct (enc_ws1_head s' Hs') as (c & t & -> & Hc). cbn [app]. exact Hc.
+    + intros rest _. destruct (enc_acl_entry_head e w He) as (c & t & -> & Hc). cbn [app]. exact Hc.
+Qed.
+
+Lemma acl_skip k body v (F : list byte -> Prop) d : same_nocase (bs "ACL") k = true ->
+  OK (Ref f_rfc4314_x_acl DSame) d (k ++ body) v F -> OK (Alt rd_alts) d (k ++ body) v F.
+Proof.
+  intros Hk H. unfold rd_alts. cbn [def_rfc3501_x_response_data].
+  do 12 (apply (skip_kw _ _ (bs "ACL") _ _ _ _ _ Hk); [vm_compute; reflexivity|]).
+  apply ok_alt_here. exact H.
+Qed.
+
+Lemma ok_acl_none k s1 m wm s0 d : kw "ACL" k -> enc_ws1 s1 -> enc_mailbox m wm -> forallb nom_is_space s0 = true ->
+  OK (Alt rd_alts) d (k ++ s1 ++ wm ++ s0)
+     (VCon "Response::Acl" [VRec "Acl" [("mailbox"%string, VBytes m); ("acls"%string, VList [])]]) at_cr.
+Proof.
+  intros Hk H1 Hm H0. unfold kw in Hk. apply (acl_skip _ _ _ _ _ Hk).
+  apply (okref _ _ _ _ _ _ _ env_acl). unfold def_rfc4314_x_acl. fold idmap.
+  eapply ok_map.
+  { apply ok_seq. regroup (k ++ (s1 ++ (wm ++ (s0 ++ [])))).
+    eapply (okseq_cons _ _ _ _ _ _ _ _ _ _ any at_cr); [apply ok_tag_nc, Hk | | intros; exact I].
+    eapply (okseq_cons _ _ _ _ _ _ _ _ _ _ (stops_at nom_is_space) at_cr); [apply ok_ws1, H1 | |].
+    - eapply (okseq_cons _ _ _ _ _ _ _ _ _ _ (stops_at cls_core_x_is_astring_char) at_cr).
+      + eapply ok_map; [apply ok_mailbox, Hm | reflexivity].
+      + eapply (okseq_cons _ _ _ _ _ _ _ _ _ _ at_cr at_cr); [| apply (okseq_nil _ _ _ _ at_cr) | intros t Ht; exact Ht].
+        apply (okref _ _ _ _ _ _ _ env_acl_list). unfold def_rfc4314_x_acl_list. fold proj12.
+        eapply ok_map.
+        { apply ok_seq.
+          eapply (okseq_cons' _ _ _ _ s0 [] _ _ (stops_at nom_is_space) at_cr); [symmetry; apply app_nil_r | apply ok_take_while, H0 | |].
+          - eapply (okseq_cons' _ _ _ _ [] [] _ _ at_cr at_cr); [reflexivity | | apply (okseq_nil _ _ _ _ at_cr) | intros t Ht; exact Ht].
+            apply ok_seplist0_empty. intros rest Hr. destruct rest as [|c t]; [destruct Hr|]. cbn in Hr. subst c. apply rej_acl_entry_cr.
+          - intros rest Hr. destruct rest as [|c t]; [destruct Hr|]. cbn in Hr. subst c. reflexivity. }
+        reflexivity.
+      + intros rest Hr. rewrite app_nil_r. destruct s0 as [|c0 s0']; cbn [app].
+        * destruct rest as [|c t]; [destruct Hr|]. cbn in Hr. subst c. reflexivity.
+        * cbn [forallb] in H0. apply andb_true_iff in H0. destruct H0 as [Hc _].
+          unfold nom_is_space in Hc. apply orb_true_iff in Hc. destruct Hc as [Hc | Hc]; apply N.eqb_eq in Hc; subst c0; reflexivity.
+    - intros rest _. destruct (enc_mailbox_head m wm Hm) as (c & t & -> & Hc). cbn [app]. exact Hc. }
+  reflexivity.
+Qed.
+
+Lemma ok_acl_some k s1 m wm s2 e we l wl d : kw "ACL" k -> enc_ws1 s1 -> enc_mailbox m wm -> enc_ws1 s2 ->
+  enc_acl_entry e we -> enc_acl_more l wl ->
+  OK (Alt rd_alts) d (k ++ s1 ++ wm ++ s2 ++ we ++ wl)
+     (VCon "Response::Acl" [VRec "Acl" [("mailbox"%string, VBytes m); ("acls"%string, VList (e :: l))]]) qr_end.
+Proof.
+  intros Hk H1 Hm H2 He Hl. unfold kw in Hk. apply (acl_skip _ _ _ _ _ Hk).
+  apply (okref _ _ _ _ _ _ _ env_acl). unfold def_rfc4314_x_acl. fold idmap.
+  destruct (enc_ws1_head _ H2) as (c2 & r2 & E2 & A2).
+  eapply ok_map.
+  { apply ok_seq. regroup (k ++ (s1 ++ (wm ++ ((s2 ++ we ++ wl) ++ [])))).
+    eapply (okseq_cons _ _ _ _ _ _ _ _ _ _ any qr_end); [apply ok_tag_nc, Hk | | intros; exact I].
+    eapply (okseq_cons _ _ _ _ _ _ _ _ _ _ (stops_at nom_is_space) qr_end); [apply ok_ws1, H1 | |].
+    - eapply (okseq_cons _ _ _ _ _ _ _ _ _ _ (stops_at cls_core_x_is_astring_char) qr_end).
+      + eapply ok_map; [apply ok_mailbox, Hm | reflexivity].
+      + eapply (okseq_cons _ _ _ _ _ _ _ _ _ _ qr_end qr_end); [| apply (okseq_nil _ _ _ _ qr_end) | intros t Ht; exact Ht].
+        apply (okref _ _ _ _ _ _ _ env_acl_list). unfold def_rfc4314_x_acl_list. fold proj12.
+        eapply ok_map.
+        { apply ok_seq. regroup (s2 ++ ((we ++ wl) ++ [])).
+          eapply (okseq_cons _ _ _ _ _ _ _ _ _ _ (stops_at nom_is_space) qr_end); [destruct H2 as [s2' _ H2']; apply ok_take_while, H2' | |].
+          - eapply (okseq_cons _ _ _ _ _ _ _ _ _ _ qr_end qr_end); [| apply (okseq_nil _ _ _ _ qr_end) | intros t Ht; exact Ht].
+            eapply (ok_seplist0 _ _ _ _ _ _ _ _ _ _ (stops_at cls_core_x_is_astring_char)).
+            + apply ok_acl_entry, He.
+            + apply oksep_acl, Hl.
+            + intros rest Hr. destruct Hl as [| s' e' w' l' ws' Hs' _ _]; cbn [app].
+              * apply qr_end_stops, Hr.
+              * destruct (enc_ws1_head s' Hs') as (c & t & -> & Hc). cbn [app]. exact Hc.
+          - intros rest _. rewrite app_nil_r. destruct (enc_acl_entry_head e we He) as (c & t & -> & Hc). cbn [app]. exact Hc. }
+        reflexivity.
+      + intros rest _. rewrite app_nil_r, E2. cbn [app]. exact A2.
+    - intros rest _. destruct (enc_mailbox_head m wm Hm) as (c & t & -> & Hc). cbn [app]. exact Hc. }
+  reflexivity.
+Qed.
+
+Theorem acl_roundtrip v w : enc_acl_response v w -> forall rest, parse (w ++ rest) = ROk rest v (nlen w).
+Proof.
+  intros [k s1 m wm s0 Hk H1 Hm H0 | k s1 m wm s2 e we l wl sp Hk H1 Hm H2 He Hl Hsp] rest.
+  - change (bs "* " ++ (k ++ s1 ++ wm ++ s0) ++ [13; 10]) with (bs "* " ++ (k ++ s1 ++ wm ++ s0) ++ [] ++ [13; 10]).
+    apply (untagged_lift_gen _ _ at_cr [] (fun d => ok_acl_none k s1 m wm s0 d Hk H1 Hm H0) spaces_nil).
+    intro r. reflexivity.
+  - apply (untagged_lift_gen _ _ qr_end sp (fun d => ok_acl_some k s1 m wm s2 e we l wl d Hk H1 Hm H2 He Hl) Hsp).
+    intro r. exists sp, (10 :: r). split; [exact Hsp | reflexivity].
+Qed.
+
+(* ---------------------------------------------------------------- LISTRIGHTS *)
+Lemma env_list_rights : env f_rfc4314_x_list_rights = Some def_rfc4314_x_list_rights. Proof. reflexivity. Qed.
+Lemma env_list_rights_optional : env f_rfc4314_x_list_rights_optional = Some def_rfc4314_x_list_rights_optional. Proof. reflexivity. Qed.
+
+Lemma rej_astring_utf8_cr d r : REJ (Ref f_core_x_astring_utf8 DSame) d (13 :: r).
+Proof. apply (fails_on_byte native_call env rk rank_ok_all 8). vm_compute. reflexivity. Qed.
+
+Lemma right_items_ascii l ws : enc_right_items l ws -> Forall (fun t => forallb (fun b => b <=? 127) t = true) l.
+Proof. intro H. induction H as [| s t wt l ws _ _ Ht _ IH]; constructor; assumption. Qed.
+
+Lemma rights_flat items : Forall (fun t => forallb (fun b => b <=? 127) t = true) items ->
+  flat_map (fun v => rights_of (vbytes v)) (map VBytes items) = flat_map rights_val items.
+Proof.
+  intro H. induction H as [| t l Ht _ IH]; [reflexivity|]. cbn [map flat_map vbytes]. rewrite IH. f_equal.
+  unfold rights_of, rights_val. rewrite (utf8_chars_ascii t Ht). apply map_ext. intro c. apply acl_right_table.
+Qed.
+
+Lemma oksep_right_items l ws d : enc_right_items l ws ->
+  OkSep native_call env rk (Leaf (LTakeWhile1 nom_is_space)) (Ref f_core_x_astring_utf8 DSame) d ws (map VBytes l) qr_end.
+Proof.
+  intro H. induction H as [| s t wt l ws Hs Ht H7 Hl IH]; cbn [map].
+  - apply oksep_nil_elem. intros rest Hr. apply rej_sep_or_elem; [intro r; apply rej_astring_utf8_cr | exact Hr].
+  - eapply (oksep_cons _ _ _ _ _ _ _ _ _ _ _ _ (stops_at nom_is_space) (stops_at cls_core_x_is_astring_char)).
+    + apply ok_ws1, Hs.
+    + destruct Hs as [s0 Hne _]. exact Hne.
+    + apply ok_astring_utf8; [exact Ht | apply ascii_utf8, H7].
+    + exact IH.
+    + intros rest Hr. destruct Hl as [| s' t' wt' l' ws' Hs' _ _ _]; cbn [app].
+      * apply qr_end_stops, Hr.
+      * destruct (enc_ws1_head s' Hs') as (c & r & -> & Hc). cbn [app]. exact Hc.
+    + intros rest _. destruct (enc_astring_head t wt Ht) as (c & r & -> & Hc). cbn [app]. exact Hc.
+Qed.
+
+Definition lro_inner : G := Map proj12 (Seq [(Leaf (LTakeWhile nom_is_space)); (SepList0 (Leaf (LTakeWhile1 nom_is_space)) (Ref f_core_x_astring_utf8 DSame))]).
+
+Lemma act_lro items : act native_call (mk_action (PVar "items") (ACall "rfc4314::list_rights_optional#1" [AVar "items"])) (VList (map VBytes items))
+  = AVal (VList (flat_map (fun v => rights_of (vbytes v)) (map VBytes items))).
+Proof. reflexivity. Qed.
+
+Lemma ok_lro_none s0 d : forallb nom_is_space s0 = true ->
+  OK (Ref f_rfc4314_x_list_rights_optional DSame) d s0 (VList (flat_map rights_val [])) at_cr.
+Proof.
+  intro H0. apply (okref _ _ _ _ _ _ _ env_list_rights_optional). unfold def_rfc4314_x_list_rights_optional. fold proj12.
+  eapply ok_map.
+  { eapply ok_map.
+    { apply ok_seq.
+      eapply (okseq_cons' _ _ _ _ s0 [] _ _ (stops_at nom_is_space) at_cr); [symmetry; apply app_nil_r | apply ok_take_while, H0 | |].
+      - eapply (okseq_cons' _ _ _ _ [] [] _ _ at_cr at_cr); [reflexivity | | apply (okseq_nil _ _ _ _ at_cr) | intros t Ht; exact Ht].
+        apply ok_seplist0_empty. intros rest Hr. destruct rest as [|c t]; [destruct Hr|]. cbn in Hr. subst c. apply rej_astring_utf8_cr.
+      - intros rest Hr. destruct rest as [|c t]; [destruct Hr|]. cbn in Hr. subst c. reflexivity. }
+    reflexivity. }
+  reflexivity.
+Qed.
+
+Lemma ok_lro_some t l wo d : enc_right_items (t :: l) wo ->
+  OK (Ref f_rfc4314_x_list_rights_optional DSame) d wo (VList (flat_map rights_val (t :: l))) qr_end.
+Proof.
+  intro H. pose proof (right_items_ascii _ _ H) as Hall. inversion H as [| s t0 wt l0 ws Hs Ht H7 Hl]; subst.
+  apply (okref _ _ _ _ _ _ _ env_list_rights_optional). unfold def_rfc4314_x_list_rights_optional. fold proj12.
+  eapply ok_map.
+  { eapply ok_map.
+    { apply ok_seq. regroup (s ++ ((wt ++ ws) ++ [])).
+      eapply (okseq_cons _ _ _ _ _ _ _ _ _ _ (stops_at nom_is_space) qr_end); [destruct Hs as [s' _ Hs']; apply ok_take_while, Hs' | |].
+      - eapply (okseq_cons _ _ _ _ _ _ _ _ _ _ qr_end qr_end); [| apply (okseq_nil _ _ _ _ qr_end) | intros r Hr; exact Hr].
+        eapply (ok_seplist0 _ _ _ _ _ _ _ _ _ _ (stops_at cls_core_x_is_astring_char)).
+        + apply ok_astring_utf8; [exact Ht | apply ascii_utf8, H7].
+        + apply oksep_right_items, Hl.
+        + intros rest Hr. destruct Hl as [| s' t' wt' l' ws' Hs' _ _ _]; cbn [app].
+          * apply qr_end_stops, Hr.
+          * destruct (enc_ws1_head s' Hs') as (c & r & -> & Hc). cbn [app]. exact Hc.
+      - intros rest _. rewrite app_nil_r. destruct (enc_astring_head t wt Ht) as (c & r & -> & Hc). cbn [app]. exact Hc. }
+    reflexivity. }
+  change (act native_call (mk_action (PVar "items") (ACall "rfc4314::list_rights_optional#1" [AVar "items"])) (VList (map VBytes (t :: l)))
+          = AVal (VList (flat_map rights_val (t :: l)))).
+  rewrite act_lro. rewrite (rights_flat _ Hall). reflexivity.
+Qed.
+
+Lemma ok_listrights_gen k s1 m wm s2 i wi s3 req wr wo optv (F : list byte -> Prop) d :
+  kw "LISTRIGHTS" k -> enc_ws1 s1 -> enc_mailbox m wm -> enc_ws1 s2 -> enc_astring i wi -> utf8_valid i = true -> enc_ws1 s3 -> enc_rights req wr ->
+  OK (Ref f_rfc4314_x_list_rights_optional DSame) d wo (VList optv) F ->
+  (forall rest, F rest -> stops_at cls_core_x_is_astring_char (wo ++ rest)) ->
+  OK (Alt rd_alts) d (k ++ s1 ++ wm ++ s2 ++ wi ++ s3 ++ wr ++ wo)
+     (VCon "Response::ListRights" [VRec "ListRights" [("mailbox"%string, VBytes m); ("identifier"%string, VBytes i);
+                                                      ("required"%string, req); ("optional"%string, VList optv)]]) F.
+Proof.
+  intros Hk H1 Hm H2 Hi Hu H3 Hr Ho HF. unfold kw in Hk. unfold rd_alts. cbn [def_rfc3501_x_response_data].
+  do 13 (apply (skip_kw _ _ (bs "LISTRIGHTS") _ _ _ _ _ Hk); [vm_compute; reflexivity|]).
+  apply ok_alt_here. apply (okref _ _ _ _ _ _ _ env_list_rights). unfold def_rfc4314_x_list_rights. fold idmap. fold rights_g.
+  destruct (enc_ws1_head _ H2) as (c2 & r2 & E2 & A2). destruct (enc_ws1_head _ H3) as (c3 & r3 & E3 & A3).
+  eapply ok_map.
+  { apply ok_seq. regroup (k ++ (s1 ++ (wm ++ (s2 ++ (wi ++ (s3 ++ (wr ++ (wo ++ [])))))))).
+    eapply (okseq_cons _ _ _ _ _ _ _ _ _ _ any F); [apply ok_tag_nc, Hk | | intros; exact I].
+    eapply (okseq_cons _ _ _ _ _ _ _ _ _ _ (stops_at nom_is_space) F); [apply ok_ws1, H1 | |].
+    2: { intros rest _. destruct (enc_mailbox_head m wm Hm) as (c & t & -> & Hc). cbn [app]. exact Hc. }
+    eapply (okseq_cons _ _ _ _ _ _ _ _ _ _ (stops_at cls_core_x_is_astring_char) F); [eapply ok_map; [apply ok_mailbox, Hm | reflexivity] | |].
+    2: { intros rest _. rewrite E2. cbn [app]. exact A2. }
+    eapply (okseq_cons _ _ _ _ _ _ _ _ _ _ (stops_at nom_is_space) F); [apply ok_ws1, H2 | |].
+    2: { intros rest _. destruct (enc_astring_head i wi Hi) as (c & t & -> & Hc). cbn [app]. exact Hc. }
+    eapply (okseq_cons _ _ _ _ _ _ _ _ _ _ (stops_at cls_core_x_is_astring_char) F); [eapply ok_map; [apply ok_astring_utf8; eassumption | reflexivity] | |].
+    2: { intros rest _. rewrite E3. cbn [app]. exact A3. }
+    eapply (okseq_cons _ _ _ _ _ _ _ _ _ _ (stops_at nom_is_space) F); [apply ok_ws1, H3 | |].
+    2: { intros rest _. destruct (enc_rights_head req wr Hr) as (c & t & -> & Hc). cbn [app]. exact Hc. }
+    eapply (okseq_cons _ _ _ _ _ _ _ _ _ _ (stops_at cls_core_x_is_astring_char) F); [apply ok_rights, Hr | |].
+    2: { intros rest HFr. rewrite app_nil_r. apply HF, HFr. }
+    eapply (okseq_cons _ _ _ _ _ _ _ _ _ _ F F); [exact Ho | apply (okseq_nil _ _ _ _ F) | intros t Ht; exact Ht]. }
+  reflexivity.
+Qed.
+
+Theorem listrights_roundtrip v w : enc_listrights_response v w -> forall rest, parse (w ++ rest) = ROk rest v (nlen w).
+Proof.
+  intros [k s1 m wm s2 i wi s3 req wr s0 Hk H1 Hm H2 Hi Hu H3 Hr H0 | k s1 m wm s2 i wi s3 req wr opt wo sp Hk H1 Hm H2 Hi Hu H3 Hr Ho Hne Hsp] rest.
+  - change (bs "* " ++ (k ++ s1 ++ wm ++ s2 ++ wi ++ s3 ++ wr ++ s0) ++ [13; 10]) with (bs "* " ++ (k ++ s1 ++ wm ++ s2 ++ wi ++ s3 ++ wr ++ s0) ++ [] ++ [13; 10]).
+    apply (untagged_lift_gen _ _ at_cr [] (fun d => ok_listrights_gen k s1 m wm s2 i wi s3 req wr s0 _ at_cr d Hk H1 Hm H2 Hi Hu H3 Hr (ok_lro_none s0 d H0)
+      (fun rest Hr0 => ltac:(destruct s0 as [|c0 s0']; cbn [app];
+         [destruct rest as [|c t]; [destruct Hr0|]; cbn in Hr0; subst c; reflexivity
+         | cbn [forallb] in H0; apply andb_true_iff in H0; destruct H0 as [Hc _]; unfold nom_is_space in Hc; apply orb_true_iff in Hc;
+           destruct Hc as [Hc | Hc]; apply N.eqb_eq in Hc; subst c0; reflexivity]))) spaces_nil).
+    intro r. reflexivity.
+  - destruct opt as [|t l]; [contradiction|].
+    apply (untagged_lift_gen _ _ qr_end sp (fun d => ok_listrights_gen k s1 m wm s2 i wi s3 req wr wo _ qr_end d Hk H1 Hm H2 Hi Hu H3 Hr (ok_lro_some t l wo d Ho)
+      (fun rest _ => ltac:(inversion Ho as [| s t0 wt l0 ws Hs Ht H7 Hl]; subst; destruct (enc_ws1_head s Hs) as (c & r & -> & Hc); cbn [app]; exact Hc))) Hsp).
+    intro r. exists sp, (10 :: r). split; [exact Hsp | reflexivity].
+Qed.
+
+(* ---------------------------------------------------------------- all of the above, as one statement *)
+Theorem response_roundtrip v w : enc_response v w -> forall rest, parse (w ++ rest) = ROk rest v (nlen w).
+Proof.
+  intros [v0 w0 H | v0 w0 H | v0 w0 H | v0 w0 H | v0 w0 H | v0 w0 H | v0 w0 H | v0 w0 H
+         | v0 body sp H Hsp | v0 body sp H Hsp | v0 body sp H Hsp | v0 body sp H Hsp] rest.
+  - apply fetch_roundtrip, H.
+  - apply data_roundtrip, H.
+  - apply status_roundtrip, H.
+  - apply tagged_roundtrip, H.
+  - apply continue_roundtrip, H.
+  - apply id_list_roundtrip, H.
+  - apply acl_roundtrip, H.
+  - apply listrights_roundtrip, H.
+  - apply capability_roundtrip; assumption.
+  - apply enabled_roundtrip; assumption.
+  - apply quotaroot_roundtrip; assumption.
+  - apply myrights_roundtrip; assumption.
+Qed.
+
+Corollary same_value_same_parse_any v w1 w2 r1 r2 : enc_response v w1 -> enc_response v w2 ->
+  parse (w1 ++ r1) = ROk r1 v (nlen w1) /\ parse (w2 ++ r2) = ROk r2 v (nlen w2).
+Proof. intros H1 H2. split; apply response_roundtrip; assumption. Qed.
